@@ -304,761 +304,7 @@ Proof.
 Qed.
 
 (* ------------------------------------------------------------------------------------------------------------ *)
-(* specifications of the dereferencing functions, relative to a specification of resolve_target                 *)
-(* ------------------------------------------------------------------------------------------------------------ *)
-Definition good {A} (r : res A) : Prop := r <> Err EFuel /\ r <> Err EBad.
-Definition nokey {A} (r : res A) : Prop := r <> Err EKey.
-Definition resolved_in (h : heap) (i : nat) : Prop :=
-  exists p tp t pa w, nth_error h i = Some (NAlias p tp (Some t) pa w).
-
-Definition P (coll : list (string * nat)) (L k : nat) (h : heap) : Prop :=
-  wf coll h = true /\ unpassed h < k /\ 2 * count_aliases h + 2 < L.
-Definition Post (coll : list (string * nat)) (h h' : heap) : Prop := R h h' /\ wf coll h' = true.
-
-Lemma P_Post : forall coll L k h h', P coll L k h -> Post coll h h' -> P coll L k h'.
-Proof.
-  intros coll L k h h' (Hw & Hu & Hl) (HR & Hw'). repeat split; auto.
-  rewrite (R_unpassed _ _ HR); auto. rewrite (R_count_aliases _ _ HR); auto.
-Qed.
-
-Lemma Post_refl : forall coll h, wf coll h = true -> Post coll h h.
-Proof. intros. split; auto. apply R_refl. Qed.
-
-Lemma Post_trans : forall coll a b c, Post coll a b -> Post coll b c -> Post coll a c.
-Proof. intros coll a b c (H1 & _) (H2 & H3). split; auto. eapply R_trans; eauto. Qed.
-
-Lemma good_ok : forall A (a : A), good (Ok a). Proof. split; discriminate. Qed.
-Lemma nokey_ok : forall A (a : A), nokey (Ok a). Proof. discriminate. Qed.
-Lemma good_cyc : forall A, good (@Err A ECyc). Proof. split; discriminate. Qed.
-Lemma nokey_cyc : forall A, nokey (@Err A ECyc). Proof. discriminate. Qed.
-Lemma good_are : forall A p, good (@Err A (EARE p)). Proof. split; discriminate. Qed.
-Lemma nokey_are : forall A p, nokey (@Err A (EARE p)). Proof. discriminate. Qed.
-Lemma good_key : forall A, good (@Err A EKey). Proof. split; discriminate. Qed.
-Lemma good_err : forall A B e, good (@Err A e) -> good (@Err B e).
-Proof. intros A B e [H1 H2]. split; intro X; inversion X; subst; [apply H1 | apply H2]; auto. Qed.
-Lemma nokey_err : forall A B e, nokey (@Err A e) -> nokey (@Err B e).
-Proof. intros A B e H X. inversion X; subst. apply H; auto. Qed.
-#[export] Hint Resolve good_ok nokey_ok good_cyc nokey_cyc good_are nokey_are good_key : c06.
-
-Lemma ref_is_alias_real : forall h i, ref_is_alias h (RReal i) = Some true ->
-  exists p tp t pa w, nth_error h i = Some (NAlias p tp t pa w).
-Proof.
-  simpl. intros. destruct (nth_error h i) as [[| ]|] eqn:E; simpl in *; try discriminate. eauto 10.
-Qed.
-
-Lemma ref_is_alias_obj : forall h r, ref_is_alias h r = Some false ->
-  exists i p c ms, r = RReal i /\ nth_error h i = Some (NObj p c ms).
-Proof.
-  destruct r; simpl; intros; try discriminate.
-  destruct (nth_error h i) as [[| ]|] eqn:E; simpl in *; try discriminate. do 4 eexists. split; [reflexivity | eauto].
-Qed.
-
-Lemma ref_ok_is_alias : forall h r, ref_ok h r = true -> ref_is_alias h r <> None.
-Proof.
-  destruct r; simpl; intros; try discriminate. apply Nat.ltb_lt in H.
-  destruct (nth_error h i) eqn:E; try discriminate. apply nth_error_None in E. lia.
-Qed.
-
-Section Spec.
-  Variable coll : list (string * nat).
-  Variables L k : nat.
-  Variable rt : heap -> nat -> heap * res unit.
-  Hypothesis rt_spec : forall h i p tp pa w,
-    P coll L k h -> nth_error h i = Some (NAlias p tp None pa w) ->
-    Post coll h (fst (rt h i)) /\ good (snd (rt h i)) /\ nokey (snd (rt h i)) /\
-    (snd (rt h i) = Ok tt -> resolved_in (fst (rt h i)) i).
-
-  Lemma target_of_spec : forall h r,
-    P coll L k h -> ref_ok h r = true -> ref_is_alias h r = Some true ->
-    Post coll h (fst (target_of rt h r)) /\ good (snd (target_of rt h r)) /\ nokey (snd (target_of rt h r)) /\
-    (forall r', snd (target_of rt h r) = Ok r' ->
-       ref_ok (fst (target_of rt h r)) r' = true /\ (vbit r = 1 -> vbit r' = 0)).
-  Proof.
-    intros h r HP Hok Hal. destruct r as [i | vp i].
-    - destruct (ref_is_alias_real _ _ Hal) as (p & tp & t & pa & w & Hn). simpl. rewrite Hn.
-      destruct t as [t|].
-      + simpl. split. apply Post_refl; apply HP. split; auto with c06. split; auto with c06.
-        intros r' Hr. inversion Hr; subst. split; [|discriminate].
-        pose proof (wf_node _ _ _ _ (proj1 HP) Hn) as X. simpl in X. apply andb_true_iff in X. tauto.
-      + destruct (rt_spec h i p tp pa w HP Hn) as (HPo & Hg & Hk & Hres).
-        destruct (rt h i) as [h' r']. simpl in *. destruct r' as [u | e].
-        * destruct u. destruct (Hres eq_refl) as (p' & tp' & t' & pa' & w' & Hn'). rewrite Hn'. simpl.
-          split; auto. split; auto with c06. split; auto with c06.
-          intros r' Hr. inversion Hr; subst. split; [|discriminate].
-          pose proof (wf_node _ _ _ _ (proj2 HPo) Hn') as X. simpl in X. apply andb_true_iff in X. tauto.
-        * simpl. split; auto. split. eapply good_err; eauto. split. eapply nokey_err; eauto. intros; discriminate.
-    - simpl. split. apply Post_refl; apply HP. split; auto with c06. split; auto with c06.
-      intros r' Hr. inversion Hr; subst. simpl in *. auto.
-  Qed.
-
-  Lemma final_target_spec : forall l h r seen,
-    P coll L k h -> ref_ok h r = true -> 2 * cnt_unseen h seen + vbit r < l ->
-    Post coll h (fst (final_target rt l h r seen)) /\ good (snd (final_target rt l h r seen)) /\
-    nokey (snd (final_target rt l h r seen)) /\
-    (forall o, snd (final_target rt l h r seen) = Ok o ->
-       exists p c ms, nth_error (fst (final_target rt l h r seen)) o = Some (NObj p c ms)).
-  Proof.
-    induction l; intros h r seen HP Hok Hm. lia.
-    simpl. destruct (ref_is_alias h r) as [[|]|] eqn:Hal.
-    - destruct (mem_str (ref_path h r) seen) eqn:Hmem.
-      + simpl. split. apply Post_refl; apply HP. split; auto with c06. split; auto with c06. intros; discriminate.
-      + destruct (target_of_spec h r HP Hok Hal) as (HPo & Hg & Hk & Hr).
-        destruct (target_of rt h r) as [h' t]. simpl in *. destruct t as [r' | e].
-        * destruct (Hr r' eq_refl) as (Hok' & Hv).
-          assert (HP' : P coll L k h') by (eapply P_Post; eauto).
-          assert (Hm' : 2 * cnt_unseen h' (ref_path h r :: seen) + vbit r' < l).
-          { rewrite (R_cnt_unseen _ _ _ (proj1 HPo)).
-            destruct r as [i | vp i].
-            - destruct (ref_is_alias_real _ _ Hal) as (p & tp & t & pa & w & Hn).
-              simpl in Hmem |- *. rewrite Hn in Hmem |- *. simpl in Hmem |- *.
-              pose proof (cnt_unseen_cons_lt h seen i _ Hn eq_refl Hmem) as X. simpl in X.
-              assert (vbit r' <= 1) by (destruct r'; simpl; lia). simpl in Hm. lia.
-            - simpl in Hm |- *. rewrite (Hv eq_refl).
-              pose proof (cnt_unseen_cons_le h seen vp). lia. }
-          destruct (IHl h' r' (ref_path h r :: seen) HP' Hok' Hm') as (HPo2 & Hg2 & Hk2 & Ho2).
-          split. eapply Post_trans; eauto. auto.
-        * simpl. split; auto. split. eapply good_err; eauto. split. eapply nokey_err; eauto. intros; discriminate.
-    - destruct (ref_is_alias_obj _ _ Hal) as (i & p & c & ms & Hr & Hn). subst r. simpl.
-      split. apply Post_refl; apply HP. split; auto with c06. split; auto with c06.
-      intros o Ho. inversion Ho; subst. eauto.
-    - exfalso. eapply ref_ok_is_alias; eauto.
-  Qed.
-
-  Lemma final_target_top : forall h r,
-    P coll L k h -> ref_ok h r = true ->
-    Post coll h (fst (final_target rt L h r [])) /\ good (snd (final_target rt L h r [])) /\
-    nokey (snd (final_target rt L h r [])) /\
-    (forall o, snd (final_target rt L h r []) = Ok o ->
-       exists p c ms, nth_error (fst (final_target rt L h r [])) o = Some (NObj p c ms)).
-  Proof.
-    intros. apply final_target_spec; auto. rewrite cnt_unseen_nil.
-    destruct H as (_ & _ & HL). assert (vbit r <= 1) by (destruct r; simpl; lia). lia.
-  Qed.
-
-  Lemma touch_members_spec : forall ms h,
-    P coll L k h -> forallb (fun kv : string * nat => snd kv <? List.length h) ms = true ->
-    Post coll h (fst (touch_members L rt h ms)) /\ good (snd (touch_members L rt h ms)) /\
-    nokey (snd (touch_members L rt h ms)).
-  Proof.
-    induction ms as [|[nm i] ms]; intros h HP Hr; simpl.
-    - split. apply Post_refl; apply HP. split; auto with c06.
-    - simpl in Hr. apply andb_true_iff in Hr. destruct Hr as [Hi Hr]. apply Nat.ltb_lt in Hi.
-      destruct (nth_error h i) as [[p c ms' | p tp t pa w]|] eqn:Hn.
-      + apply IHms; auto.
-      + assert (Hok : ref_ok h (RReal i) = true) by (simpl; apply Nat.ltb_lt; auto).
-        destruct (final_target_top h (RReal i) HP Hok) as (HPo & Hg & Hk & _).
-        destruct (final_target rt L h (RReal i) []) as [h' r]. simpl in *.
-        assert (HP' : P coll L k h') by (eapply P_Post; eauto).
-        assert (Hr' : forallb (fun kv : string * nat => snd kv <? List.length h') ms = true).
-        { rewrite (R_length _ _ (proj1 HPo)). auto. }
-        destruct (IHms h' HP' Hr') as (HPo2 & Hg2 & Hk2).
-        destruct r as [o | e].
-        * split. eapply Post_trans; eauto. auto.
-        * destruct e; simpl;
-            first [ solve [split; [eapply Post_trans; eauto | auto]]
-                  | split; [auto | split; [eapply good_err; eauto | eapply nokey_err; eauto]] ].
-      + apply nth_error_None in Hn. lia.
-  Qed.
-
-  Lemma get_from_spec : forall parts h cur,
-    P coll L k h -> ref_ok h cur = true ->
-    Post coll h (fst (get_from L rt h cur parts)) /\ good (snd (get_from L rt h cur parts)) /\
-    (forall r, snd (get_from L rt h cur parts) = Ok r -> ref_ok (fst (get_from L rt h cur parts)) r = true).
-  Proof.
-    induction parts as [|name rest]; intros h cur HP Hok; simpl.
-    - split. apply Post_refl; apply HP. split; auto with c06. intros r Hr. inversion Hr; subst; auto.
-    - destruct (ref_is_alias h cur) as [[|]|] eqn:Hal.
-      + destruct (final_target_top h cur HP Hok) as (HPo & Hg & Hk & Ho).
-        destruct (final_target rt L h cur []) as [h1 ft]. simpl in *. destruct ft as [o | e].
-        * destruct (Ho o eq_refl) as (p & c & ms & Hn). rewrite Hn.
-          assert (HP1 : P coll L k h1) by (eapply P_Post; eauto).
-          pose proof (wf_node _ _ _ _ (proj1 HP1) Hn) as Hms. simpl in Hms.
-          destruct (touch_members_spec ms h1 HP1 Hms) as (HPo2 & Hg2 & Hk2).
-          destruct (touch_members L rt h1 ms) as [h2 u]. simpl in *.
-          assert (HP2 : P coll L k h2) by (eapply P_Post; eauto).
-          destruct u as [u | e].
-          -- destruct (lookup name ms) as [j|] eqn:Hl.
-             ++ assert (Hokj : ref_ok h2 (RVirt (String.append (ref_path h cur) (String.append "." name)) j) = true).
-                { simpl. apply Nat.ltb_lt. rewrite (R_length _ _ (proj1 HPo2)). eapply lookup_in_range; eauto. }
-                destruct (IHrest h2 _ HP2 Hokj) as (HPo3 & Hg3 & Hr3).
-                split. eapply Post_trans; [eauto | eapply Post_trans; eauto]. auto.
-             ++ simpl. split. eapply Post_trans; eauto. split; auto with c06. intros; discriminate.
-          -- simpl. split. eapply Post_trans; eauto. split. eapply good_err; eauto. intros; discriminate.
-        * simpl. split; auto. split. eapply good_err; eauto. intros; discriminate.
-      + destruct (ref_is_alias_obj _ _ Hal) as (i & p & c & ms & Hc & Hn). subst cur. rewrite Hn.
-        destruct (lookup name ms) as [j|] eqn:Hl.
-        * pose proof (wf_node _ _ _ _ (proj1 HP) Hn) as Hms. simpl in Hms.
-          apply IHrest; auto. simpl. apply Nat.ltb_lt. eapply lookup_in_range; eauto.
-        * simpl. split. apply Post_refl; apply HP. split; auto with c06. intros; discriminate.
-      + exfalso. eapply ref_ok_is_alias; eauto.
-  Qed.
-
-  Lemma get_member_spec : forall h parts,
-    P coll L k h -> parts <> [] ->
-    Post coll h (fst (get_member coll L rt h parts)) /\ good (snd (get_member coll L rt h parts)) /\
-    (forall r, snd (get_member coll L rt h parts) = Ok r -> ref_ok (fst (get_member coll L rt h parts)) r = true).
-  Proof.
-    intros h parts HP Hne. destruct parts as [|top rest]. congruence. simpl.
-    destruct (lookup top coll) as [m|] eqn:Hl.
-    - destruct (wf_coll _ _ _ _ (proj1 HP) Hl) as (p & c & ms & Hn).
-      apply get_from_spec; auto. simpl. apply Nat.ltb_lt. eapply nth_error_lt; eauto.
-    - simpl. split. apply Post_refl; apply HP. split; auto with c06. intros; discriminate.
-  Qed.
-End Spec.
-
-(* pointwise relation away from one index (the alias whose flag is currently raised) *)
-Definition Rx (i : nat) (h h' : heap) : Prop :=
-  List.length h = List.length h' /\
-  forall j a b, j <> i -> nth_error h j = Some a -> nth_error h' j = Some b -> step_rel a b.
-
-Lemma Rx_of_R : forall i h h', R h h' -> Rx i h h'.
-Proof.
-  intros. split. symmetry. apply R_length; auto.
-  intros j a b _ Ha Hb. destruct (R_nth _ _ H _ _ Ha) as (n' & Hn & Hs). congruence.
-Qed.
-
-Lemma Rx_update : forall i h x, Rx i h (update h i x).
-Proof.
-  intros. split. symmetry. apply update_length.
-  intros j a b Hj Ha Hb. rewrite nth_update_other in Hb; auto. assert (a = b) by congruence. subst. apply step_rel_refl.
-Qed.
-
-Lemma Rx_trans : forall i a b c, Rx i a b -> Rx i b c -> Rx i a c.
-Proof.
-  intros i a b c (L1 & H1) (L2 & H2). split. congruence.
-  intros j x z Hj Hx Hz. destruct (nth_error b j) as [y|] eqn:Hy.
-  - eapply step_rel_trans; eauto.
-  - apply nth_error_None in Hy. apply nth_error_lt in Hx. lia.
-Qed.
-
-Lemma finish : forall coll h i p tp w hX tX,
-  wf coll hX = true -> nth_error h i = Some (NAlias p tp None false w) -> Rx i h hX ->
-  nth_error hX i = Some (NAlias p tp tX true w) ->
-  Post coll h (set_passed hX i false) /\ nth_error (set_passed hX i false) i = Some (NAlias p tp tX false w).
-Proof.
-  intros coll h i p tp w hX tX Hw Hn (Hl & Hx) HnX. unfold set_passed. rewrite HnX. split; [split|].
-  - eapply R_frame; eauto. simpl. auto 10.
-  - eapply wf_update_alias; eauto. pose proof (wf_node _ _ _ _ Hw HnX) as X. simpl in *. auto.
-  - apply nth_update_same. eapply nth_error_lt; eauto.
-Qed.
-
-Lemma resolve_body_spec : forall coll L k rt,
-  (forall h i p tp pa w, P coll L k h -> nth_error h i = Some (NAlias p tp None pa w) ->
-     Post coll h (fst (rt h i)) /\ good (snd (rt h i)) /\ nokey (snd (rt h i)) /\
-     (snd (rt h i) = Ok tt -> resolved_in (fst (rt h i)) i)) ->
-  forall h i p tp pa w, P coll L (S k) h -> nth_error h i = Some (NAlias p tp None pa w) ->
-    Post coll h (fst (resolve_body coll L rt h i)) /\ good (snd (resolve_body coll L rt h i)) /\
-    nokey (snd (resolve_body coll L rt h i)) /\
-    (snd (resolve_body coll L rt h i) = Ok tt -> resolved_in (fst (resolve_body coll L rt h i)) i).
-Proof.
-  intros coll L k rt rt_spec h i p tp pa w HP Hn. unfold resolve_body. rewrite Hn. destruct pa.
-  { simpl. split. apply Post_refl; apply HP. split; auto with c06. split; auto with c06. intros; discriminate. }
-  assert (Ehh : set_passed h i true = update h i (NAlias p tp None true w)) by (unfold set_passed; rewrite Hn; auto).
-  rewrite Ehh. clear Ehh. set (hh := update h i (NAlias p tp None true w)).
-  assert (Hi : i < List.length h) by (eapply nth_error_lt; eauto).
-  assert (Hnh : nth_error hh i = Some (NAlias p tp None true w)) by (apply nth_update_same; auto).
-  pose proof (wf_node _ _ _ _ (proj1 HP) Hn) as Hnok. simpl in Hnok.
-  assert (Htp : tp <> []) by (destruct tp; [discriminate | congruence]).
-  assert (HPh : P coll L k hh).
-  { destruct HP as (Hw & Hu & Hl). split; [|split].
-    - eapply wf_update_alias; eauto.
-    - pose proof (unpassed_set_true h i p tp None w Hn). fold hh in H. lia.
-    - unfold hh. erewrite count_aliases_update; eauto. }
-  assert (Hxh : Rx i h hh) by apply Rx_update.
-  (* error exits: the alias keeps whatever link it has, the flag is reset *)
-  assert (Exit : forall hX (e : err), Post coll hh hX -> good (@Err unit e) -> nokey (@Err unit e) ->
-            Post coll h (fst (set_passed hX i false, @Err unit e)) /\ good (snd (set_passed hX i false, @Err unit e)) /\
-            nokey (snd (set_passed hX i false, @Err unit e)) /\
-            (snd (set_passed hX i false, @Err unit e) = Ok tt -> resolved_in (fst (set_passed hX i false, @Err unit e)) i)).
-  { intros hX e (HR & HwX) Hg Hk. destruct (R_nth_alias _ _ _ _ _ _ _ _ HR Hnh) as (tX & HnX & _).
-    destruct (finish coll h i p tp w hX tX HwX Hn (Rx_trans _ _ _ _ Hxh (Rx_of_R i _ _ HR)) HnX) as (F1 & F2).
-    simpl. split; auto. split; auto. split; auto. intros; discriminate. }
-  unfold resolve_inner.
-  destruct (get_member_spec coll L k rt rt_spec hh tp HPh Htp) as (HPo1 & Hg1 & Hr1).
-  destruct (get_member coll L rt hh tp) as [h1 g]. simpl in Hg1, Hr1, HPo1.
-  destruct g as [r | e].
-  2:{ destruct e; try (apply Exit; auto with c06; try (eapply good_err; eauto); discriminate). }
-  destruct (ref_eqb r (RReal i)). { apply Exit; auto with c06. }
-  assert (HP1 : P coll L k h1) by (eapply P_Post; eauto).
-  specialize (Hr1 r eq_refl).
-  set (U := match r with
-            | RReal j => match nth_error h1 j with
-                         | Some (NAlias _ _ None _ _) => rt h1 j
-                         | _ => (h1, Ok tt)
-                         end
-            | RVirt _ _ => (h1, Ok tt)
-            end).
-  assert (HU : Post coll h1 (fst U) /\ good (snd U) /\ nokey (snd U)).
-  { assert (D : Post coll h1 (fst (h1, @Ok unit tt)) /\ good (snd (h1, @Ok unit tt)) /\ nokey (snd (h1, @Ok unit tt))).
-    { simpl. split. apply Post_refl; apply HP1. split; auto with c06. }
-    subst U. destruct r as [j | vp j]; auto.
-    destruct (nth_error h1 j) as [[? ? ? | pj tpj [tj|] paj wj]|] eqn:Hj; auto.
-    destruct (rt_spec h1 j pj tpj paj wj HP1 Hj) as (A & B & C & _). auto. }
-  destruct U as [h2 u]. simpl in HU. destruct HU as (HPo2 & Hg2 & Hk2).
-  assert (HPo12 : Post coll hh h2) by (eapply Post_trans; eauto).
-  destruct u as [u | e]. 2:{ apply Exit; auto. }
-  destruct (R_nth_alias _ _ _ _ _ _ _ _ (proj1 HPo12) Hnh) as (t2 & Hn2 & _).
-  unfold set_target. rewrite Hn2. set (h3 := update h2 i (NAlias p tp (Some r) true w)).
-  assert (Hi2 : i < List.length h2) by (eapply nth_error_lt; eauto).
-  assert (Hn3 : nth_error h3 i = Some (NAlias p tp (Some r) true w)) by (apply nth_update_same; auto).
-  assert (Hok2 : ref_ok h2 r = true).
-  { rewrite (ref_ok_len h1 h2); auto. symmetry. apply R_length. apply HPo2. }
-  assert (Hw3 : wf coll h3 = true).
-  { eapply wf_update_alias; eauto. apply HPo12. simpl. rewrite Hok2. destruct tp; auto. }
-  assert (HP2 : P coll L k h2) by (eapply P_Post; eauto).
-  assert (HP3 : P coll L k h3).
-  { destruct HP2 as (Hw & Hu & Hl). split; auto. split.
-    - unfold h3. erewrite unpassed_update_same; eauto.
-    - unfold h3. erewrite count_aliases_update; eauto. }
-  assert (Hx3 : Rx i h h3).
-  { eapply Rx_trans; [exact Hxh|]. eapply Rx_trans; [apply Rx_of_R; apply HPo12|]. apply Rx_update. }
-  assert (Hok3 : ref_ok h3 r = true) by (rewrite (ref_ok_len h2 h3); auto; unfold h3; symmetry; apply update_length).
-  destruct (ref_is_alias h3 r) as [[|]|] eqn:Hal.
-  - destruct (final_target_top coll L k rt rt_spec h3 r HP3 Hok3) as (HPo4 & Hg4 & Hk4 & _).
-    destruct (final_target rt L h3 r []) as [h4 f]. simpl in HPo4, Hg4, Hk4.
-    destruct (R_nth_alias _ _ _ _ _ _ _ _ (proj1 HPo4) Hn3) as (t4 & Hn4 & Ht4).
-    assert (t4 = Some r) by (destruct Ht4 as [?|[? ?]]; [auto | discriminate]). subst t4.
-    destruct (finish coll h i p tp w h4 (Some r) (proj2 HPo4) Hn
-                (Rx_trans _ _ _ _ Hx3 (Rx_of_R i _ _ (proj1 HPo4))) Hn4) as (F1 & F2).
-    destruct f as [o | e]; simpl.
-    + split; auto. split; auto with c06. split; auto with c06. intros _. red. eauto 10.
-    + split; auto. split. eapply good_err; eauto. split. eapply nokey_err; eauto. intros; discriminate.
-  - destruct (finish coll h i p tp w h3 (Some r) Hw3 Hn Hx3 Hn3) as (F1 & F2). simpl.
-    split; auto. split; auto with c06. split; auto with c06. intros _. red. eauto 10.
-  - exfalso. eapply ref_ok_is_alias; eauto.
-Qed.
-
-(* Termination, error discipline, monotonicity and flag restoration of resolve_target, for every heap:
-   with more fuel than there are aliases whose flag is down, the recursion never runs out. *)
-Theorem resolve_target_spec : forall coll L n h i p tp pa w,
-  P coll L n h -> nth_error h i = Some (NAlias p tp None pa w) ->
-  Post coll h (fst (resolve_target coll L n h i)) /\ good (snd (resolve_target coll L n h i)) /\
-  nokey (snd (resolve_target coll L n h i)) /\
-  (snd (resolve_target coll L n h i) = Ok tt -> resolved_in (fst (resolve_target coll L n h i)) i).
-Proof.
-  induction n; intros h i p tp pa w HP Hn.
-  - destruct HP as (_ & Hu & _). lia.
-  - simpl. eapply resolve_body_spec; eauto.
-Qed.
-
-(* ------------------------------------------------------------------------------------------------------------ *)
-(* top-level statements                                                                                          *)
-(* ------------------------------------------------------------------------------------------------------------ *)
-Definition flags (h : heap) : list bool := map (fun n => match n with NAlias _ _ _ pa _ => pa | _ => false end) h.
-
-Lemma R_flags : forall h h', R h h' -> flags h' = flags h.
-Proof.
-  unfold flags. induction 1; simpl; auto. rewrite IHForall2. f_equal.
-  destruct x, y; simpl in *; try tauto. destruct H as (?&?&?&?&?). auto.
-Qed.
-
-(* an already stored link is never changed, an unset one may become set; nothing else moves *)
-Definition link_of (h : heap) (i : nat) : option ref :=
-  match nth_error h i with Some (NAlias _ _ t _ _) => t | _ => None end.
-
-Lemma R_link : forall h h' i t, R h h' -> link_of h i = Some t -> link_of h' i = Some t.
-Proof.
-  unfold link_of. intros. destruct (nth_error h i) as [[| p tp t0 pa w]|] eqn:E; try discriminate. subst.
-  destruct (R_nth_alias _ _ _ _ _ _ _ _ H E) as (t' & Hn & [Ht|[Ht _]]). rewrite Hn. auto. discriminate.
-Qed.
-
-Lemma P_top : forall coll h, wf coll h = true -> P coll (fuelL h) (fuelN h) h.
-Proof.
-  intros. split; auto. unfold fuelN, fuelL. pose proof (unpassed_le_count h). lia.
-Qed.
-
-Lemma outcome_cases : forall A (r : res A), good r -> nokey r ->
-  (exists a, r = Ok a) \/ (exists q, r = Err (EARE q)) \/ r = Err ECyc.
-Proof.
-  intros A r [H1 H2] H3. destruct r as [a | e]; eauto. destruct e; eauto; congruence.
-Qed.
-
-(* Alias.resolve_target on any well-formed heap (any import graph, any state of the flags): with the fuel the model
-   uses the call returns, its outcome is success, AliasResolutionError or CyclicAliasError, on success the alias is
-   resolved, every flag is back to what it was, stored links are untouched. *)
-Theorem resolve_top_total : forall coll h i p tp pa w,
-  wf coll h = true -> nth_error h i = Some (NAlias p tp None pa w) ->
-  let h' := fst (resolve_top coll h i) in
-  let r := snd (resolve_top coll h i) in
-  (r = Ok tt /\ resolved_in h' i \/ (exists q, r = Err (EARE q)) \/ r = Err ECyc) /\
-  wf coll h' = true /\ flags h' = flags h /\ (forall j t, link_of h j = Some t -> link_of h' j = Some t).
-Proof.
-  intros coll h i p tp pa w Hw Hn. unfold resolve_top.
-  destruct (resolve_target_spec coll (fuelL h) (fuelN h) h i p tp pa w (P_top _ _ Hw) Hn) as ((HR & Hw') & Hg & Hk & Hres).
-  cbv zeta. split; [|split; [auto | split; [apply R_flags; auto | intros; eapply R_link; eauto]]].
-  destruct (outcome_cases _ _ Hg Hk) as [[[] E]|[E|E]]; auto.
-Qed.
-
-(* Alias.final_target (hence kind, members, every proxied attribute) on any well-formed heap *)
-Theorem deref_total : forall coll h i,
-  wf coll h = true -> i < List.length h ->
-  let h' := fst (deref_top coll h i) in
-  let r := snd (deref_top coll h i) in
-  ((exists o p c ms, r = Ok o /\ nth_error h' o = Some (NObj p c ms)) \/ (exists q, r = Err (EARE q)) \/ r = Err ECyc) /\
-  wf coll h' = true /\ flags h' = flags h /\ (forall j t, link_of h j = Some t -> link_of h' j = Some t).
-Proof.
-  intros coll h i Hw Hi. unfold deref_top.
-  assert (Hok : ref_ok h (RReal i) = true) by (simpl; apply Nat.ltb_lt; auto).
-  destruct (final_target_top coll (fuelL h) (fuelN h) (resolve_target coll (fuelL h) (fuelN h))
-              (fun h0 i0 p tp pa w => resolve_target_spec coll (fuelL h) (fuelN h) h0 i0 p tp pa w)
-              h (RReal i) (P_top _ _ Hw) Hok) as ((HR & Hw') & Hg & Hk & Ho).
-  cbv zeta. split; [|split; [auto | split; [apply R_flags; auto | intros; eapply R_link; eauto]]].
-  destruct (outcome_cases _ _ Hg Hk) as [[o E]|[E|E]]; auto.
-  left. destruct (Ho o E) as (p & c & ms & Hn). eauto 10.
-Qed.
-
-(* ------------------------------------------------------------------------------------------------------------ *)
-(* loader level: resolve_module_aliases, one pass over the collection, the fixpoint loop                         *)
-(* ------------------------------------------------------------------------------------------------------------ *)
-Lemma resolve_top_spec : forall coll h i p tp pa w,
-  wf coll h = true -> nth_error h i = Some (NAlias p tp None pa w) ->
-  Post coll h (fst (resolve_top coll h i)) /\ good (snd (resolve_top coll h i)) /\ nokey (snd (resolve_top coll h i)).
-Proof.
-  intros. unfold resolve_top.
-  destruct (resolve_target_spec coll (fuelL h) (fuelN h) h i p tp pa w (P_top _ _ H) H0) as (A & B & C & _). auto.
-Qed.
-
-Lemma deref_top_spec : forall coll h i,
-  wf coll h = true -> i < List.length h ->
-  Post coll h (fst (deref_top coll h i)) /\ good (snd (deref_top coll h i)) /\ nokey (snd (deref_top coll h i)).
-Proof.
-  intros coll h i Hw Hi. unfold deref_top.
-  assert (Hok : ref_ok h (RReal i) = true) by (simpl; apply Nat.ltb_lt; auto).
-  destruct (final_target_top coll (fuelL h) (fuelN h) (resolve_target coll (fuelL h) (fuelN h))
-              (fun h0 i0 p tp pa w => resolve_target_spec coll (fuelL h) (fuelN h) h0 i0 p tp pa w)
-              h (RReal i) (P_top _ _ Hw) Hok) as (A & B & C & _). auto.
-Qed.
-
-Definition seen_le (s s' : list string) : Prop := forall p, mem_str p s = true -> mem_str p s' = true.
-
-Lemma seen_le_refl : forall s, seen_le s s. Proof. red; auto. Qed.
-Lemma seen_le_trans : forall a b c, seen_le a b -> seen_le b c -> seen_le a c. Proof. unfold seen_le; auto. Qed.
-Lemma seen_le_cons : forall s p, seen_le s (p :: s).
-Proof. unfold seen_le. intros. simpl. destruct (String.eqb p0 p); auto. Qed.
-
-Definition unseen_obj (seen : list string) (n : node) : bool :=
-  match n with NObj p _ _ => negb (mem_str p seen) | _ => false end.
-Definition cnt_obj (h : heap) (seen : list string) : nat := List.length (filter (unseen_obj seen) h).
-
-Lemma R_cnt_obj : forall h h' seen, R h h' -> cnt_obj h' seen = cnt_obj h seen.
-Proof.
-  unfold cnt_obj. induction 1; simpl; auto.
-  assert (unseen_obj seen y = unseen_obj seen x).
-  { destruct x, y; simpl in *; try tauto. destruct H as (?&?). subst. auto. }
-  rewrite H1. destruct (unseen_obj seen x); simpl; auto.
-Qed.
-
-Lemma cnt_obj_mono : forall h s s', seen_le s s' -> cnt_obj h s' <= cnt_obj h s.
-Proof.
-  unfold cnt_obj. induction h; simpl; intros; auto. specialize (IHh _ _ H).
-  destruct (unseen_obj s' a) eqn:E.
-  - assert (unseen_obj s a = true).
-    { destruct a; simpl in *; try discriminate. destruct (mem_str path s) eqn:M; auto.
-      rewrite (H _ M) in E. discriminate. }
-    rewrite H0. simpl. lia.
-  - destruct (unseen_obj s a); simpl; lia.
-Qed.
-
-Lemma cnt_obj_cons_lt : forall h seen i p c ms, nth_error h i = Some (NObj p c ms) -> mem_str p seen = false ->
-  cnt_obj h (p :: seen) < cnt_obj h seen.
-Proof.
-  unfold cnt_obj. induction h; destruct i; simpl; intros; try discriminate.
-  - inversion H; subst. simpl. rewrite String.eqb_refl. rewrite H0. simpl.
-    pose proof (cnt_obj_mono h seen (p :: seen) (seen_le_cons _ _)) as X. unfold cnt_obj in X. lia.
-  - specialize (IHh seen i p c ms H H0).
-    pose proof (cnt_obj_mono [a] seen (p :: seen) (seen_le_cons _ _)) as X. unfold cnt_obj in X. simpl in X.
-    destruct (unseen_obj (p :: seen) a); destruct (unseen_obj seen a); simpl in *; lia.
-Qed.
-
-Lemma cnt_obj_le_length : forall h seen, cnt_obj h seen <= List.length h.
-Proof. unfold cnt_obj. induction h; simpl; intros; auto. destruct (unseen_obj seen a); simpl; specialize (IHh seen); lia. Qed.
-
-Section LoaderSpec.
-  Variable coll : list (string * nat).
-
-  Lemma visit_alias_spec : forall a m p p' tp pa w,
-    wf coll (a_heap a) = true -> nth_error (a_heap a) m = Some (NAlias p' tp None pa w) ->
-    Post coll (a_heap a) (a_heap (fst (visit_alias coll a m p))) /\ good (snd (visit_alias coll a m p)) /\
-    nokey (snd (visit_alias coll a m p)) /\ a_seen (fst (visit_alias coll a m p)) = a_seen a.
-  Proof.
-    intros a m p p' tp pa w Hw Hn. unfold visit_alias.
-    destruct (resolve_top_spec coll (a_heap a) m p' tp pa w Hw Hn) as (HPo & Hg & Hk).
-    destruct (resolve_top coll (a_heap a) m) as [h1 r]. simpl in *.
-    destruct r as [u | e].
-    - assert (Hm : m < List.length h1).
-      { rewrite (R_length _ _ (proj1 HPo)). eapply nth_error_lt; eauto. }
-      destruct (deref_top_spec coll h1 m (proj2 HPo) Hm) as (HPo2 & Hg2 & Hk2).
-      destruct (deref_top coll h1 m) as [h2 f]. simpl in *.
-      destruct f as [o | e]; simpl.
-      + split. eapply Post_trans; eauto. split; auto with c06.
-      + split. eapply Post_trans; eauto. split. eapply good_err; eauto. split; auto. eapply nokey_err; eauto.
-    - destruct e; simpl; split; auto; split; auto with c06;
-        try (eapply good_err; eauto); split; auto with c06; try (eapply nokey_err; eauto).
-  Qed.
-
-  Definition obj_unseen (a : acc) (m : nat) : Prop :=
-    exists p c ms, nth_error (a_heap a) m = Some (NObj p c ms) /\ mem_str p (a_seen a) = false.
-
-  Definition rec_spec (d : nat) (recur : acc -> nat -> acc * res unit) : Prop :=
-    forall a m, wf coll (a_heap a) = true -> obj_unseen a m -> cnt_obj (a_heap a) (a_seen a) < d ->
-      Post coll (a_heap a) (a_heap (fst (recur a m))) /\ good (snd (recur a m)) /\ nokey (snd (recur a m)) /\
-      seen_le (a_seen a) (a_seen (fst (recur a m))).
-
-  Lemma members_loop_spec : forall d recur, rec_spec d recur ->
-    forall ms a, wf coll (a_heap a) = true ->
-      forallb (fun kv : string * nat => snd kv <? List.length (a_heap a)) ms = true ->
-      cnt_obj (a_heap a) (a_seen a) < d ->
-      Post coll (a_heap a) (a_heap (fst (members_loop coll recur a ms))) /\ good (snd (members_loop coll recur a ms)) /\
-      nokey (snd (members_loop coll recur a ms)) /\ seen_le (a_seen a) (a_seen (fst (members_loop coll recur a ms))).
-  Proof.
-    intros d recur Hrec. induction ms as [|[nm m] ms]; intros a Hw Hr Hc; simpl.
-    - split. apply Post_refl; auto. split; auto with c06. split; auto with c06. apply seen_le_refl.
-    - simpl in Hr. apply andb_true_iff in Hr. destruct Hr as [Hm Hr]. apply Nat.ltb_lt in Hm.
-      assert (Step : forall a' (r : res unit),
-                Post coll (a_heap a) (a_heap a') -> good r -> nokey r -> seen_le (a_seen a) (a_seen a') ->
-                let res := match r with Err e => (a', Err e) | Ok _ => members_loop coll recur a' ms end in
-                Post coll (a_heap a) (a_heap (fst res)) /\ good (snd res) /\ nokey (snd res) /\
-                seen_le (a_seen a) (a_seen (fst res))).
-      { intros a' r HPo Hg Hk Hs. destruct r as [u | e]; cbv zeta.
-        - assert (Hr' : forallb (fun kv : string * nat => snd kv <? List.length (a_heap a')) ms = true).
-          { rewrite (R_length _ _ (proj1 HPo)). auto. }
-          assert (Hc' : cnt_obj (a_heap a') (a_seen a') < d).
-          { rewrite (R_cnt_obj _ _ _ (proj1 HPo)). pose proof (cnt_obj_mono (a_heap a) _ _ Hs). lia. }
-          destruct (IHms a' (proj2 HPo) Hr' Hc') as (A & B & C & D).
-          split. eapply Post_trans; eauto. split; auto. split; auto. eapply seen_le_trans; eauto.
-        - simpl. auto. }
-      destruct (nth_error (a_heap a) m) as [[mp c mms | p tp t pa w]|] eqn:Hn.
-      + destruct (c && negb (mem_str mp (a_seen a))) eqn:Hcond.
-        * apply andb_true_iff in Hcond. destruct Hcond as [_ Hcond]. apply negb_true_iff in Hcond.
-          assert (Hou : obj_unseen a m) by (red; eauto).
-          destruct (Hrec a m Hw Hou Hc) as (A & B & C & D).
-          destruct (recur a m) as [a' r]. simpl in *. apply (Step a' r); auto.
-        * apply IHms; auto.
-      + destruct (w || match t with Some _ => true | None => false end) eqn:Hcond.
-        * apply IHms; auto.
-        * apply orb_false_iff in Hcond. destruct Hcond as [_ Ht]. destruct t; try discriminate.
-          destruct (visit_alias_spec a m p p tp pa w Hw Hn) as (A & B & C & D).
-          destruct (visit_alias coll a m p) as [a' r]. simpl in *. apply (Step a' r); auto.
-          rewrite D. apply seen_le_refl.
-      + apply nth_error_None in Hn. lia.
-  Qed.
-
-  Lemma rma_spec : forall d, rec_spec d (rma coll d).
-  Proof.
-    induction d; intros a o Hw (p & c & ms & Hn & Hmem) Hc. lia.
-    simpl. rewrite Hn.
-    set (a0 := mkAcc (a_heap a) (p :: a_seen a) (a_resolved a) (a_unresolved a)).
-    assert (Hc0 : cnt_obj (a_heap a0) (a_seen a0) < d).
-    { simpl. pose proof (cnt_obj_cons_lt _ _ _ _ _ _ Hn Hmem). lia. }
-    pose proof (wf_node _ _ _ _ Hw Hn) as Hms. simpl in Hms.
-    destruct (members_loop_spec d (rma coll d) IHd ms a0 Hw Hms Hc0) as (A & B & C & D).
-    split; auto. split; auto. split; auto. eapply seen_le_trans; [apply seen_le_cons | exact D].
-  Qed.
-
-  Opaque rma.
-  Lemma pass_modules_spec : forall mods h unres,
-    wf coll h = true ->
-    (forall kv, In kv mods -> exists p c ms, nth_error h (snd kv) = Some (NObj p c ms)) ->
-    Post coll h (fst (pass_modules coll h mods unres)) /\ good (snd (pass_modules coll h mods unres)) /\
-    nokey (snd (pass_modules coll h mods unres)).
-  Proof.
-    induction mods as [|[nm m] mods]; intros h unres Hw Hm; simpl.
-    - split. apply Post_refl; auto. split; auto with c06.
-    - set (a0 := mkAcc h [] [] unres).
-      destruct (Hm (nm, m) (or_introl eq_refl)) as (p & c & ms & Hn).
-      assert (Hou : obj_unseen a0 m) by (red; simpl; eauto).
-      assert (Hc : cnt_obj (a_heap a0) (a_seen a0) < S (List.length h)).
-      { simpl. pose proof (cnt_obj_le_length h []). lia. }
-      destruct (rma_spec (S (List.length h)) a0 m Hw Hou Hc) as (A & B & C & _).
-      destruct (rma coll (S (List.length h)) a0 m) as [a r]. simpl in A, B, C.
-      destruct r as [u | e].
-      + assert (Hm' : forall kv, In kv mods -> exists p c ms, nth_error (a_heap a) (snd kv) = Some (NObj p c ms)).
-        { intros kv Hin. destruct (Hm kv (or_intror Hin)) as (p' & c' & ms' & Hn'). exists p', c', ms'.
-          eapply R_nth_obj; eauto. apply A. }
-        destruct (IHmods (a_heap a) (a_unresolved a) (proj2 A) Hm') as (A2 & B2 & C2).
-        simpl. split. eapply Post_trans; eauto. auto.
-      + simpl. split; auto. split. eapply good_err; eauto. eapply nokey_err; eauto.
-  Qed.
-
-  Transparent rma.
-
-  Lemma one_pass_spec : forall h, wf coll h = true ->
-    Post coll h (fst (one_pass coll h)) /\ good (snd (one_pass coll h)) /\ nokey (snd (one_pass coll h)).
-  Proof.
-    intros. unfold one_pass. apply pass_modules_spec; auto.
-    intros kv Hin. unfold wf, coll_ok in H. apply andb_true_iff in H. destruct H as [_ H].
-    rewrite forallb_forall in H. specialize (H kv Hin).
-    destruct (nth_error h (snd kv)) as [[| ]|]; try discriminate. eauto.
-  Qed.
-End LoaderSpec.
-
-(* the while loop of resolve_aliases: every pass that does not end the loop stores at least one new link *)
-Definition unres_node (n : node) : bool := match n with NAlias _ _ None _ _ => true | _ => false end.
-Definition unres_count (h : heap) : nat := List.length (filter unres_node h).
-
-Lemma unres_le_count : forall h, unres_count h <= count_aliases h.
-Proof.
-  unfold unres_count, count_aliases. induction h; simpl; auto.
-  destruct a; simpl; auto. destruct target; simpl; lia.
-Qed.
-
-Lemma R_unres : forall h h', R h h' -> unres_count h' <= unres_count h /\ (unres_count h' = unres_count h -> h' = h).
-Proof.
-  unfold unres_count. induction 1; simpl. auto.
-  destruct IHForall2 as [IH1 IH2].
-  destruct x as [p c ms | p tp t pa w], y as [p' c' ms' | p' tp' t' pa' w']; simpl in H; try tauto.
-  - destruct H as (?&?&?). subst. simpl. split; auto. intros. f_equal. auto.
-  - destruct H as (?&?&?&?&Ht). subst. destruct Ht as [Ht | [Ht Hp]]; subst.
-    + destruct t; simpl; split; try lia; intros; f_equal; apply IH2; lia.
-    + destruct t'; simpl; split; try lia; intros; try (f_equal; apply IH2; lia).
-Qed.
-
-Lemma incl_str_refl : forall l, incl_str l l = true.
-Proof.
-  unfold incl_str. intros. apply forallb_forall. intros x Hx. apply mem_str_In. auto.
-Qed.
-
-Lemma set_eq_refl : forall l, set_eq l l = true.
-Proof. unfold set_eq. intros. rewrite incl_str_refl. auto. Qed.
-
-Lemma ra_loop_spec : forall coll k h prev it,
-  wf coll h = true -> unres_count h + 2 <= k ->
-  Post coll h (fst (ra_loop coll k h prev it)) /\ good (snd (ra_loop coll k h prev it)) /\
-  nokey (snd (ra_loop coll k h prev it)).
-Proof.
-  induction k; intros h prev it Hw Hk. lia.
-  simpl. destruct (one_pass_spec coll h Hw) as (HPo & Hg & Hkk).
-  destruct (one_pass coll h) as [h' r] eqn:E1. simpl in *.
-  destruct r as [unres | e].
-  2:{ simpl. split; auto. split. eapply good_err; eauto. eapply nokey_err; eauto. }
-  destruct unres as [|u0 us].
-  { simpl. split; auto. split; auto with c06. }
-  destruct (set_eq (u0 :: us) prev).
-  { simpl. split; auto. split; auto with c06. }
-  destruct (R_unres _ _ (proj1 HPo)) as [Hle Heq].
-  destruct (Nat.eq_dec (unres_count h') (unres_count h)) as [Hsame | Hless].
-  - (* nothing changed in this pass: the next pass repeats it and the loop stops *)
-    specialize (Heq Hsame). subst h'.
-    destruct k as [|k']. lia.
-    simpl. rewrite E1. rewrite set_eq_refl. simpl. split; auto. split; auto with c06.
-  - assert (Hk' : unres_count h' + 2 <= k) by lia.
-    destruct (IHk h' (u0 :: us) (S it) (proj2 HPo) Hk') as (A & B & C).
-    split. eapply Post_trans; eauto. auto.
-Qed.
-
-(* GriffeLoader.resolve_aliases on any well-formed heap: the loop stops within #aliases+2 passes, the recursions never
-   run out of fuel, flags are restored, stored links untouched; the only errors that can leave it are the two alias
-   errors (from the eager `member.final_target.path` of the debug message). *)
-Theorem resolve_aliases_total : forall coll h,
-  wf coll h = true ->
-  let h' := fst (resolve_aliases coll h) in
-  let r := snd (resolve_aliases coll h) in
-  ((exists u it, r = Ok (u, it)) \/ (exists q, r = Err (EARE q)) \/ r = Err ECyc) /\
-  wf coll h' = true /\ flags h' = flags h /\ (forall j t, link_of h j = Some t -> link_of h' j = Some t).
-Proof.
-  intros coll h Hw. unfold resolve_aliases.
-  assert (Hk : unres_count h + 2 <= count_aliases h + 2) by (pose proof (unres_le_count h); lia).
-  destruct (ra_loop_spec coll (count_aliases h + 2) h [] 0 Hw Hk) as ((HR & Hw') & Hg & Hkk).
-  cbv zeta. split; [|split; [auto | split; [apply R_flags; auto | intros; eapply R_link; eauto]]].
-  destruct (outcome_cases _ _ Hg Hkk) as [[[u it] E]|[E|E]]; eauto.
-Qed.
-
-(* Fixpoint, conditional form: once a pass over the collection changes nothing, resolve_aliases is a no-op that
-   returns that pass' unresolved set. *)
-Theorem fixpoint_after_quiet_pass : forall coll h u,
-  one_pass coll h = (h, Ok u) ->
-  exists it, resolve_aliases coll h = (h, Ok (u, it)) /\ it <= 2.
-Proof.
-  intros coll h u E. unfold resolve_aliases.
-  replace (count_aliases h + 2) with (S (S (count_aliases h))) by lia.
-  simpl. rewrite E. destruct u as [|u0 us].
-  - exists 1. auto.
-  - unfold set_eq at 1. simpl. rewrite E. rewrite set_eq_refl. exists 2. auto.
-Qed.
-
-(* ------------------------------------------------------------------------------------------------------------ *)
-(* witnesses: heaps abstracted from real packages (harness/props/c06.py prints them; replayed on the implementation *)
-(* on every run as known findings C06-F3 / C06-F4)                                                                *)
-(* ------------------------------------------------------------------------------------------------------------ *)
-(* {"p": "import p.b as m", "p.b": "from p.zz import x", "p.a": "from p.m import x"} *)
-Definition w_through_coll : list (string * nat) := [("p", 0)].
-Definition w_through_heap : heap :=
-  [ NObj "p" true [("m", 1); ("a", 2); ("b", 4)];
-    NAlias "p.m" ["p"; "b"] None false false;
-    NObj "p.a" true [("x", 3)];
-    NAlias "p.a.x" ["p"; "m"; "x"] None false false;
-    NObj "p.b" true [("x", 5)];
-    NAlias "p.b.x" ["p"; "zz"; "x"] None false false ].
-
-(* {"p": "from p.a import *", "p.a": "from p.zz import x", "p.b": "from p import x", "p.c": "from p.b import x"},
-   after wildcard expansion: p.x is stored onto the unresolved alias p.a.x *)
-Definition w_pre_coll : list (string * nat) := [("p", 0)].
-Definition w_pre_heap : heap :=
-  [ NObj "p" true [("a", 1); ("c", 3); ("b", 5); ("x", 7)];
-    NObj "p.a" true [("x", 2)];
-    NAlias "p.a.x" ["p"; "zz"; "x"] None false false;
-    NObj "p.c" true [("x", 4)];
-    NAlias "p.c.x" ["p"; "b"; "x"] None false false;
-    NObj "p.b" true [("x", 6)];
-    NAlias "p.b.x" ["p"; "x"] None false false;
-    NAlias "p.x" ["p"; "a"; "x"] (Some (RReal 2)) false false ].
-
-(* a plain resolvable chain, a cycle, and a dangling chain: the hypotheses of the theorems are satisfiable and every
-   outcome class is reached *)
-Definition w_plain_coll : list (string * nat) := [("p", 0)].
-Definition w_plain_heap : heap :=
-  [ NObj "p" true [("x", 1); ("a", 2); ("y", 6); ("z", 7)];
-    NAlias "p.x" ["p"; "a"; "x"] None false false;
-    NObj "p.a" true [("x", 3); ("f", 4); ("y", 5)];
-    NAlias "p.a.x" ["p"; "a"; "f"] None false false;
-    NObj "p.a.f" false [];
-    NAlias "p.a.y" ["p"; "y"] None false false;
-    NAlias "p.y" ["p"; "a"; "y"] None false false;
-    NAlias "p.z" ["p"; "zz"; "z"] None false false ].
-
-Example plain_hypotheses :
-  wf w_plain_coll w_plain_heap = true /\ direct w_plain_coll w_plain_heap = true /\
-  chains_complete w_plain_heap = true /\ unique_paths w_plain_heap = true /\ no_passed w_plain_heap = true.
-Proof. vm_compute. auto. Qed.
-
-Example plain_outcomes :
-  snd (resolve_top w_plain_coll w_plain_heap 1) = Ok tt /\
-  snd (deref_top w_plain_coll w_plain_heap 1) = Ok 4 /\
-  snd (resolve_top w_plain_coll w_plain_heap 5) = Err ECyc /\
-  snd (resolve_top w_plain_coll w_plain_heap 7) = Err (EARE "p.z") /\
-  snd (resolve_aliases w_plain_coll w_plain_heap) = Ok (["p.z"], 2) /\
-  chains_complete (fst (resolve_aliases w_plain_coll w_plain_heap)) = true.
-Proof. vm_compute. auto 10. Qed.
-
-(* All-or-nothing is FALSE of the unchanged code when a target path runs through an alias member (no wildcard
-   involved): resolve_target on p.a.x fails with AliasResolutionError(p.b.x) after storing p.a.x's link. *)
-Lemma all_or_nothing_refuted_passthrough :
-  exists coll h i,
-    wf coll h = true /\ no_passed h = true /\ unique_paths h = true /\ chains_complete h = true /\
-    snd (resolve_top coll h i) = Err (EARE "p.b.x") /\
-    link_of h i = None /\ link_of (fst (resolve_top coll h i)) i = Some (RVirt "p.m.x" 5) /\
-    chains_complete (fst (resolve_top coll h i)) = false.
-Proof. exists w_through_coll, w_through_heap, 3. vm_compute. auto 10. Qed.
-
-(* ... and when wildcard expansion has stored a first link onto an unresolved alias (direct heap): *)
-Lemma all_or_nothing_refuted_preresolved :
-  exists coll h i,
-    wf coll h = true /\ no_passed h = true /\ unique_paths h = true /\ direct coll h = true /\
-    snd (resolve_top coll h i) = Err (EARE "p.a.x") /\
-    link_of h i = None /\ link_of (fst (resolve_top coll h i)) i = Some (RReal 7).
-Proof. exists w_pre_coll, w_pre_heap, 6. vm_compute. auto 10. Qed.
-
-(* The return value of resolve_aliases is not a fixpoint on such heaps: the first call reports p.c.x as unresolved
-   although its link is stored, the second call no longer does. *)
-Lemma fixpoint_refuted :
-  exists coll h,
-    wf coll h = true /\ no_passed h = true /\ unique_paths h = true /\ direct coll h = true /\
-    snd (resolve_aliases coll h) = Ok (["p.c.x"; "p.a.x"], 2) /\
-    snd (resolve_aliases coll (fst (resolve_aliases coll h))) = Ok (["p.a.x"], 2).
-Proof. exists w_pre_coll, w_pre_heap. vm_compute. auto 10. Qed.
-
-(* ------------------------------------------------------------------------------------------------------------ *)
-(* all-or-nothing on direct heaps without pre-stored dangling links                                              *)
+(* static lookups and pure chain walks                                                                           *)
 (* ------------------------------------------------------------------------------------------------------------ *)
 Lemma static_from_update : forall parts h i n n' j,
   nth_error h i = Some n -> is_alias_node n = true -> is_alias_node n' = true ->
@@ -1194,24 +440,6 @@ Proof.
       apply andb_true_iff in Hu. tauto.
 Qed.
 
-Definition Inv (coll : list (string * nat)) (L : nat) (h : heap) : Prop :=
-  wf coll h = true /\ direct coll h = true /\ chains_complete_L L h = true /\ unique_paths h = true /\
-  2 * count_aliases h + 2 < L.
-
-Lemma direct_nth : forall coll h i p tp t pa w, direct coll h = true -> nth_error h i = Some (NAlias p tp t pa w) ->
-  (exists x, static_get coll h tp = Some x) /\ (forall vp j, t <> Some (RVirt vp j)).
-Proof.
-  unfold direct. intros. pose proof (forallb_nth _ _ _ _ _ H H0) as X. simpl in X.
-  apply andb_true_iff in X. destruct X as [X1 X2]. split.
-  - destruct (static_get coll h tp); try discriminate. eauto.
-  - intros vp j E. subst. discriminate.
-Qed.
-
-Lemma direct_no_virt : forall coll h, direct coll h = true -> no_virt h.
-Proof.
-  intros coll h Hd k p tp vp j pa w E. destruct (direct_nth _ _ _ _ _ _ _ _ Hd E) as [_ X]. eapply X; eauto.
-Qed.
-
 Lemma forallb_of_nth : forall A (g : A -> bool) l, (forall k n, nth_error l k = Some n -> g n = true) -> forallb g l = true.
 Proof.
   intros. apply forallb_forall. intros x Hx. destruct (In_nth_error _ _ Hx) as [k Hk]. eauto.
@@ -1228,6 +456,938 @@ Proof.
     { apply nth_error_lt in Hk. rewrite update_length in Hk. auto. }
     rewrite nth_update_same in Hk; auto. congruence.
   - rewrite nth_update_other in Hk; auto. eapply Hother; eauto. eapply forallb_nth; eauto.
+Qed.
+
+
+Lemma fuelL_update : forall h i n n', nth_error h i = Some n -> is_alias_node n = is_alias_node n' ->
+  fuelL (update h i n') = fuelL h.
+Proof. intros. unfold fuelL. erewrite count_aliases_update; eauto. Qed.
+
+(* the passed-through flag is invisible to the pure chain walk *)
+Lemma chain_end_flag : forall l h i p tp t pa pa' w r seen,
+  nth_error h i = Some (NAlias p tp t pa w) ->
+  chain_end l (update h i (NAlias p tp t pa' w)) r seen = chain_end l h r seen.
+Proof.
+  induction l; intros; simpl; auto.
+  destruct r as [k | vp k].
+  - destruct (Nat.eq_dec i k).
+    + subst. rewrite nth_update_same by (eapply nth_error_lt; eauto). rewrite H.
+      destruct t; auto. destruct (mem_str p seen); auto. eapply IHl; eauto.
+    + rewrite nth_update_other; auto. destruct (nth_error h k) as [[| pk tpk [tk|] pak wk]|]; auto.
+      destruct (mem_str pk seen); auto. eapply IHl; eauto.
+  - destruct (mem_str vp seen); auto. eapply IHl; eauto.
+Qed.
+
+Lemma tc_flag : forall h i p tp t pa pa' w,
+  nth_error h i = Some (NAlias p tp t pa w) -> targets_complete h = true ->
+  targets_complete (update h i (NAlias p tp t pa' w)) = true.
+Proof.
+  intros h i p tp t pa pa' w Hn Hc. unfold targets_complete in *.
+  rewrite (fuelL_update h i _ (NAlias p tp t pa' w) Hn eq_refl).
+  eapply forallb_update_ix; [exact Hc | |].
+  - pose proof (forallb_nth _ _ _ _ _ Hc Hn) as X. simpl in *. destruct t; auto.
+    erewrite chain_end_flag; eauto.
+  - intros k n _ _ Hf. destruct n as [| pk tpk [tk|] pak wk]; auto. simpl in *. erewrite chain_end_flag; eauto.
+Qed.
+
+Lemma tc_set_target : forall h i p tp pa pa' w r o,
+  nth_error h i = Some (NAlias p tp None pa w) -> targets_complete h = true ->
+  chain_end (fuelL h) h r [] = Some o ->
+  targets_complete (update h i (NAlias p tp (Some r) pa' w)) = true.
+Proof.
+  intros h i p tp pa pa' w r o Hn Hc Hr. unfold targets_complete in *.
+  rewrite (fuelL_update h i _ (NAlias p tp (Some r) pa' w) Hn eq_refl).
+  eapply forallb_update_ix; [exact Hc | |].
+  - simpl. erewrite chain_end_update_unres; eauto.
+  - intros k n _ _ Hf. destruct n as [| pk tpk [tk|] pak wk]; auto. simpl in *.
+    destruct (chain_end (fuelL h) h tk []) eqn:E; try discriminate. erewrite chain_end_update_unres; eauto.
+Qed.
+
+Definition flags (h : heap) : list bool := map (fun n => match n with NAlias _ _ _ pa _ => pa | _ => false end) h.
+
+Lemma R_flags : forall h h', R h h' -> flags h' = flags h.
+Proof.
+  unfold flags. induction 1; simpl; auto. rewrite IHForall2. f_equal.
+  destruct x, y; simpl in *; try tauto. destruct H as (?&?&?&?&?). auto.
+Qed.
+
+(* an already stored link is never changed, an unset one may become set; nothing else moves *)
+Definition link_of (h : heap) (i : nat) : option ref :=
+  match nth_error h i with Some (NAlias _ _ t _ _) => t | _ => None end.
+
+Lemma R_link : forall h h' i t, R h h' -> link_of h i = Some t -> link_of h' i = Some t.
+Proof.
+  unfold link_of. intros. destruct (nth_error h i) as [[| p tp t0 pa w]|] eqn:E; try discriminate. subst.
+  destruct (R_nth_alias _ _ _ _ _ _ _ _ H E) as (t' & Hn & [Ht|[Ht _]]). rewrite Hn. auto. discriminate.
+Qed.
+
+(* ------------------------------------------------------------------------------------------------------------ *)
+(* specifications of the dereferencing functions, relative to a specification of resolve_target                 *)
+(* ------------------------------------------------------------------------------------------------------------ *)
+Definition good {A} (r : res A) : Prop := r <> Err EFuel /\ r <> Err EBad.
+Definition nokey {A} (r : res A) : Prop := r <> Err EKey.
+Definition resolved_in (h : heap) (i : nat) : Prop :=
+  exists p tp t pa w, nth_error h i = Some (NAlias p tp (Some t) pa w).
+
+Definition P (coll : list (string * nat)) (L k : nat) (h : heap) : Prop :=
+  wf coll h = true /\ unpassed h < k /\ 2 * count_aliases h + 2 < L.
+Definition Post (coll : list (string * nat)) (h h' : heap) : Prop :=
+  R h h' /\ wf coll h' = true /\ (targets_complete h = true -> targets_complete h' = true).
+
+Lemma P_Post : forall coll L k h h', P coll L k h -> Post coll h h' -> P coll L k h'.
+Proof.
+  intros coll L k h h' (Hw & Hu & Hl) (HR & Hw' & _). repeat split; auto.
+  rewrite (R_unpassed _ _ HR); auto. rewrite (R_count_aliases _ _ HR); auto.
+Qed.
+
+Lemma Post_refl : forall coll h, wf coll h = true -> Post coll h h.
+Proof. intros. split; [apply R_refl | auto]. Qed.
+
+Lemma Post_trans : forall coll a b c, Post coll a b -> Post coll b c -> Post coll a c.
+Proof. intros coll a b c (H1 & _ & T1) (H2 & H3 & T2). split; [eapply R_trans; eauto | auto]. Qed.
+
+Lemma Post_wf : forall coll h h', Post coll h h' -> wf coll h' = true.
+Proof. intros coll h h' (_ & H & _). auto. Qed.
+
+Lemma good_ok : forall A (a : A), good (Ok a). Proof. split; discriminate. Qed.
+Lemma nokey_ok : forall A (a : A), nokey (Ok a). Proof. discriminate. Qed.
+Lemma good_cyc : forall A, good (@Err A ECyc). Proof. split; discriminate. Qed.
+Lemma nokey_cyc : forall A, nokey (@Err A ECyc). Proof. discriminate. Qed.
+Lemma good_are : forall A p, good (@Err A (EARE p)). Proof. split; discriminate. Qed.
+Lemma nokey_are : forall A p, nokey (@Err A (EARE p)). Proof. discriminate. Qed.
+Lemma good_key : forall A, good (@Err A EKey). Proof. split; discriminate. Qed.
+Lemma good_err : forall A B e, good (@Err A e) -> good (@Err B e).
+Proof. intros A B e [H1 H2]. split; intro X; inversion X; subst; [apply H1 | apply H2]; auto. Qed.
+Lemma nokey_err : forall A B e, nokey (@Err A e) -> nokey (@Err B e).
+Proof. intros A B e H X. inversion X; subst. apply H; auto. Qed.
+#[export] Hint Resolve good_ok nokey_ok good_cyc nokey_cyc good_are nokey_are good_key : c06.
+
+Lemma ref_is_alias_real : forall h i, ref_is_alias h (RReal i) = Some true ->
+  exists p tp t pa w, nth_error h i = Some (NAlias p tp t pa w).
+Proof.
+  simpl. intros. destruct (nth_error h i) as [[| ]|] eqn:E; simpl in *; try discriminate. eauto 10.
+Qed.
+
+Lemma ref_is_alias_obj : forall h r, ref_is_alias h r = Some false ->
+  exists i p c ms, r = RReal i /\ nth_error h i = Some (NObj p c ms).
+Proof.
+  destruct r; simpl; intros; try discriminate.
+  destruct (nth_error h i) as [[| ]|] eqn:E; simpl in *; try discriminate. do 4 eexists. split; [reflexivity | eauto].
+Qed.
+
+Lemma ref_ok_is_alias : forall h r, ref_ok h r = true -> ref_is_alias h r <> None.
+Proof.
+  destruct r; simpl; intros; try discriminate. apply Nat.ltb_lt in H.
+  destruct (nth_error h i) eqn:E; try discriminate. apply nth_error_None in E. lia.
+Qed.
+
+Section Spec.
+  Variable coll : list (string * nat).
+  Variables L k : nat.
+  Variable rt : heap -> nat -> heap * res unit.
+  Hypothesis rt_spec : forall h i p tp pa w,
+    P coll L k h -> nth_error h i = Some (NAlias p tp None pa w) ->
+    Post coll h (fst (rt h i)) /\ good (snd (rt h i)) /\ nokey (snd (rt h i)) /\
+    (snd (rt h i) = Ok tt -> resolved_in (fst (rt h i)) i) /\
+    (forall e, snd (rt h i) = Err e -> link_of (fst (rt h i)) i = None).
+
+  Lemma target_of_spec : forall h r,
+    P coll L k h -> ref_ok h r = true -> ref_is_alias h r = Some true ->
+    Post coll h (fst (target_of rt h r)) /\ good (snd (target_of rt h r)) /\ nokey (snd (target_of rt h r)) /\
+    (forall r', snd (target_of rt h r) = Ok r' ->
+       ref_ok (fst (target_of rt h r)) r' = true /\ (vbit r = 1 -> vbit r' = 0)).
+  Proof.
+    intros h r HP Hok Hal. destruct r as [i | vp i].
+    - destruct (ref_is_alias_real _ _ Hal) as (p & tp & t & pa & w & Hn). simpl. rewrite Hn.
+      destruct t as [t|].
+      + simpl. split. apply Post_refl; apply HP. split; auto with c06. split; auto with c06.
+        intros r' Hr. inversion Hr; subst. split; [|discriminate].
+        pose proof (wf_node _ _ _ _ (proj1 HP) Hn) as X. simpl in X. apply andb_true_iff in X. tauto.
+      + destruct (rt_spec h i p tp pa w HP Hn) as (HPo & Hg & Hk & Hres & _).
+        destruct (rt h i) as [h' r']. simpl in *. destruct r' as [u | e].
+        * destruct u. destruct (Hres eq_refl) as (p' & tp' & t' & pa' & w' & Hn'). rewrite Hn'. simpl.
+          split; auto. split; auto with c06. split; auto with c06.
+          intros r' Hr. inversion Hr; subst. split; [|discriminate].
+          pose proof (wf_node _ _ _ _ (Post_wf _ _ _ HPo) Hn') as X. simpl in X. apply andb_true_iff in X. tauto.
+        * simpl. split; auto. split. eapply good_err; eauto. split. eapply nokey_err; eauto. intros; discriminate.
+    - simpl. split. apply Post_refl; apply HP. split; auto with c06. split; auto with c06.
+      intros r' Hr. inversion Hr; subst. simpl in *. auto.
+  Qed.
+
+  Lemma final_target_spec : forall l h r seen,
+    P coll L k h -> ref_ok h r = true -> 2 * cnt_unseen h seen + vbit r < l ->
+    Post coll h (fst (final_target rt l h r seen)) /\ good (snd (final_target rt l h r seen)) /\
+    nokey (snd (final_target rt l h r seen)) /\
+    (forall o, snd (final_target rt l h r seen) = Ok o ->
+       exists p c ms, nth_error (fst (final_target rt l h r seen)) o = Some (NObj p c ms)).
+  Proof.
+    induction l; intros h r seen HP Hok Hm. lia.
+    simpl. destruct (ref_is_alias h r) as [[|]|] eqn:Hal.
+    - destruct (mem_str (ref_path h r) seen) eqn:Hmem.
+      + simpl. split. apply Post_refl; apply HP. split; auto with c06. split; auto with c06. intros; discriminate.
+      + destruct (target_of_spec h r HP Hok Hal) as (HPo & Hg & Hk & Hr).
+        destruct (target_of rt h r) as [h' t]. simpl in *. destruct t as [r' | e].
+        * destruct (Hr r' eq_refl) as (Hok' & Hv).
+          assert (HP' : P coll L k h') by (eapply P_Post; eauto).
+          assert (Hm' : 2 * cnt_unseen h' (ref_path h r :: seen) + vbit r' < l).
+          { rewrite (R_cnt_unseen _ _ _ (proj1 HPo)).
+            destruct r as [i | vp i].
+            - destruct (ref_is_alias_real _ _ Hal) as (p & tp & t & pa & w & Hn).
+              simpl in Hmem |- *. rewrite Hn in Hmem |- *. simpl in Hmem |- *.
+              pose proof (cnt_unseen_cons_lt h seen i _ Hn eq_refl Hmem) as X. simpl in X.
+              assert (vbit r' <= 1) by (destruct r'; simpl; lia). simpl in Hm. lia.
+            - simpl in Hm |- *. rewrite (Hv eq_refl).
+              pose proof (cnt_unseen_cons_le h seen vp). lia. }
+          destruct (IHl h' r' (ref_path h r :: seen) HP' Hok' Hm') as (HPo2 & Hg2 & Hk2 & Ho2).
+          split. eapply Post_trans; eauto. auto.
+        * simpl. split; auto. split. eapply good_err; eauto. split. eapply nokey_err; eauto. intros; discriminate.
+    - destruct (ref_is_alias_obj _ _ Hal) as (i & p & c & ms & Hr & Hn). subst r. simpl.
+      split. apply Post_refl; apply HP. split; auto with c06. split; auto with c06.
+      intros o Ho. inversion Ho; subst. eauto.
+    - exfalso. eapply ref_ok_is_alias; eauto.
+  Qed.
+
+  Lemma target_of_link : forall h i r', snd (target_of rt h (RReal i)) = Ok r' -> link_of (fst (target_of rt h (RReal i))) i = Some r'.
+  Proof.
+    intros h i r'. unfold link_of. simpl. destruct (nth_error h i) as [[| p tp [t|] pa w]|] eqn:Hn; simpl; try discriminate.
+    - intros E. inversion E; subst. rewrite Hn. auto.
+    - destruct (rt h i) as [h' u]. destruct u as [u | e]; simpl; try discriminate.
+      destruct (nth_error h' i) as [[| p' tp' [t'|] pa' w']|] eqn:Hn'; simpl; try discriminate.
+      intros E. inversion E; subst. rewrite Hn'. auto.
+  Qed.
+
+  (* a successful dereference leaves a heap in which the same walk succeeds through stored links alone *)
+  Lemma final_target_chain : forall l h r seen o,
+    P coll L k h -> ref_ok h r = true -> 2 * cnt_unseen h seen + vbit r < l ->
+    snd (final_target rt l h r seen) = Ok o -> chain_end l (fst (final_target rt l h r seen)) r seen = Some o.
+  Proof.
+    induction l; intros h r seen o HP Hok Hm. lia.
+    simpl. destruct (ref_is_alias h r) as [[|]|] eqn:Hal.
+    - destruct (mem_str (ref_path h r) seen) eqn:Hmem. simpl; discriminate.
+      destruct (target_of_spec h r HP Hok Hal) as (HPo & Hg & Hk & Hr).
+      pose proof (target_of_link h) as Hlink.
+      destruct (target_of rt h r) as [h1 t] eqn:Et. simpl in HPo, Hg, Hk, Hr. destruct t as [r' | e]; [|simpl; discriminate].
+      destruct (Hr r' eq_refl) as (Hok' & Hv).
+      assert (HP' : P coll L k h1) by (eapply P_Post; eauto).
+      assert (Hm' : 2 * cnt_unseen h1 (ref_path h r :: seen) + vbit r' < l).
+      { rewrite (R_cnt_unseen _ _ _ (proj1 HPo)).
+        destruct r as [i | vp i].
+        - destruct (ref_is_alias_real _ _ Hal) as (p & tp & t & pa & w & Hn).
+          simpl in Hmem |- *. rewrite Hn in Hmem |- *. simpl in Hmem |- *.
+          pose proof (cnt_unseen_cons_lt h seen i _ Hn eq_refl Hmem) as X. simpl in X.
+          assert (vbit r' <= 1) by (destruct r'; simpl; lia). simpl in Hm. lia.
+        - simpl in Hm |- *. rewrite (Hv eq_refl).
+          pose proof (cnt_unseen_cons_le h seen vp). lia. }
+      intros Ho. specialize (IHl h1 r' (ref_path h r :: seen) o HP' Hok' Hm' Ho).
+      destruct (final_target_spec l h1 r' (ref_path h r :: seen) HP' Hok' Hm') as ((HR2 & _) & _).
+      set (H' := fst (final_target rt l h1 r' (ref_path h r :: seen))) in *.
+      destruct r as [i | vp i].
+      + destruct (ref_is_alias_real _ _ Hal) as (p & tp & t & pa & w & Hn).
+        specialize (Hlink i r'). rewrite Et in Hlink. simpl in Hlink. specialize (Hlink eq_refl).
+        pose proof (R_link _ _ _ _ HR2 Hlink) as Hl2.
+        destruct (R_nth_alias _ _ _ _ _ _ _ _ (R_trans _ _ _ (proj1 HPo) HR2) Hn) as (t2 & Hn2 & _).
+        unfold link_of in Hl2. rewrite Hn2 in Hl2. subst t2.
+        simpl. rewrite Hn2. simpl in Hmem, IHl. rewrite Hn in Hmem, IHl. simpl in Hmem, IHl. rewrite Hmem. exact IHl.
+      + simpl in Hmem, IHl |- *. rewrite Hmem.
+        assert (h1 = h) by (simpl in Et; inversion Et; auto). assert (r' = RReal i) by (simpl in Et; inversion Et; auto).
+        subst. exact IHl.
+    - destruct (ref_is_alias_obj _ _ Hal) as (i & p & c & ms & Hr & Hn). subst r. simpl.
+      intros E. inversion E; subst. rewrite Hn. auto.
+    - exfalso. eapply ref_ok_is_alias; eauto.
+  Qed.
+
+  Lemma final_target_top : forall h r,
+    P coll L k h -> ref_ok h r = true ->
+    Post coll h (fst (final_target rt L h r [])) /\ good (snd (final_target rt L h r [])) /\
+    nokey (snd (final_target rt L h r [])) /\
+    (forall o, snd (final_target rt L h r []) = Ok o ->
+       exists p c ms, nth_error (fst (final_target rt L h r [])) o = Some (NObj p c ms)).
+  Proof.
+    intros. apply final_target_spec; auto. rewrite cnt_unseen_nil.
+    destruct H as (_ & _ & HL). assert (vbit r <= 1) by (destruct r; simpl; lia). lia.
+  Qed.
+
+  Lemma touch_members_spec : forall ms h,
+    P coll L k h -> forallb (fun kv : string * nat => snd kv <? List.length h) ms = true ->
+    Post coll h (fst (touch_members L rt h ms)) /\ good (snd (touch_members L rt h ms)) /\
+    nokey (snd (touch_members L rt h ms)).
+  Proof.
+    induction ms as [|[nm i] ms]; intros h HP Hr; simpl.
+    - split. apply Post_refl; apply HP. split; auto with c06.
+    - simpl in Hr. apply andb_true_iff in Hr. destruct Hr as [Hi Hr]. apply Nat.ltb_lt in Hi.
+      destruct (nth_error h i) as [[p c ms' | p tp t pa w]|] eqn:Hn.
+      + apply IHms; auto.
+      + assert (Hok : ref_ok h (RReal i) = true) by (simpl; apply Nat.ltb_lt; auto).
+        destruct (final_target_top h (RReal i) HP Hok) as (HPo & Hg & Hk & _).
+        destruct (final_target rt L h (RReal i) []) as [h' r]. simpl in *.
+        assert (HP' : P coll L k h') by (eapply P_Post; eauto).
+        assert (Hr' : forallb (fun kv : string * nat => snd kv <? List.length h') ms = true).
+        { rewrite (R_length _ _ (proj1 HPo)). auto. }
+        destruct (IHms h' HP' Hr') as (HPo2 & Hg2 & Hk2).
+        destruct r as [o | e].
+        * split. eapply Post_trans; eauto. auto.
+        * destruct e; simpl;
+            first [ solve [split; [eapply Post_trans; eauto | auto]]
+                  | split; [auto | split; [eapply good_err; eauto | eapply nokey_err; eauto]] ].
+      + apply nth_error_None in Hn. lia.
+  Qed.
+
+  Lemma get_from_spec : forall parts h cur,
+    P coll L k h -> ref_ok h cur = true ->
+    Post coll h (fst (get_from L rt h cur parts)) /\ good (snd (get_from L rt h cur parts)) /\
+    (forall r, snd (get_from L rt h cur parts) = Ok r -> ref_ok (fst (get_from L rt h cur parts)) r = true).
+  Proof.
+    induction parts as [|name rest]; intros h cur HP Hok; simpl.
+    - split. apply Post_refl; apply HP. split; auto with c06. intros r Hr. inversion Hr; subst; auto.
+    - destruct (ref_is_alias h cur) as [[|]|] eqn:Hal.
+      + destruct (final_target_top h cur HP Hok) as (HPo & Hg & Hk & Ho).
+        destruct (final_target rt L h cur []) as [h1 ft]. simpl in *. destruct ft as [o | e].
+        * destruct (Ho o eq_refl) as (p & c & ms & Hn). rewrite Hn.
+          assert (HP1 : P coll L k h1) by (eapply P_Post; eauto).
+          pose proof (wf_node _ _ _ _ (proj1 HP1) Hn) as Hms. simpl in Hms.
+          destruct (touch_members_spec ms h1 HP1 Hms) as (HPo2 & Hg2 & Hk2).
+          destruct (touch_members L rt h1 ms) as [h2 u]. simpl in *.
+          assert (HP2 : P coll L k h2) by (eapply P_Post; eauto).
+          destruct u as [u | e].
+          -- destruct (lookup name ms) as [j|] eqn:Hl.
+             ++ assert (Hokj : ref_ok h2 (RVirt (String.append (ref_path h cur) (String.append "." name)) j) = true).
+                { simpl. apply Nat.ltb_lt. rewrite (R_length _ _ (proj1 HPo2)). eapply lookup_in_range; eauto. }
+                destruct (IHrest h2 _ HP2 Hokj) as (HPo3 & Hg3 & Hr3).
+                split. eapply Post_trans; [eauto | eapply Post_trans; eauto]. auto.
+             ++ simpl. split. eapply Post_trans; eauto. split; auto with c06. intros; discriminate.
+          -- simpl. split. eapply Post_trans; eauto. split. eapply good_err; eauto. intros; discriminate.
+        * simpl. split; auto. split. eapply good_err; eauto. intros; discriminate.
+      + destruct (ref_is_alias_obj _ _ Hal) as (i & p & c & ms & Hc & Hn). subst cur. rewrite Hn.
+        destruct (lookup name ms) as [j|] eqn:Hl.
+        * pose proof (wf_node _ _ _ _ (proj1 HP) Hn) as Hms. simpl in Hms.
+          apply IHrest; auto. simpl. apply Nat.ltb_lt. eapply lookup_in_range; eauto.
+        * simpl. split. apply Post_refl; apply HP. split; auto with c06. intros; discriminate.
+      + exfalso. eapply ref_ok_is_alias; eauto.
+  Qed.
+
+  Lemma get_member_spec : forall h parts,
+    P coll L k h -> parts <> [] ->
+    Post coll h (fst (get_member coll L rt h parts)) /\ good (snd (get_member coll L rt h parts)) /\
+    (forall r, snd (get_member coll L rt h parts) = Ok r -> ref_ok (fst (get_member coll L rt h parts)) r = true).
+  Proof.
+    intros h parts HP Hne. destruct parts as [|top rest]. congruence. simpl.
+    destruct (lookup top coll) as [m|] eqn:Hl.
+    - destruct (wf_coll _ _ _ _ (proj1 HP) Hl) as (p & c & ms & Hn).
+      apply get_from_spec; auto. simpl. apply Nat.ltb_lt. eapply nth_error_lt; eauto.
+    - simpl. split. apply Post_refl; apply HP. split; auto with c06. intros; discriminate.
+  Qed.
+End Spec.
+
+(* pointwise relation away from one index (the alias whose flag is currently raised) *)
+Definition Rx (i : nat) (h h' : heap) : Prop :=
+  List.length h = List.length h' /\
+  forall j a b, j <> i -> nth_error h j = Some a -> nth_error h' j = Some b -> step_rel a b.
+
+Lemma Rx_of_R : forall i h h', R h h' -> Rx i h h'.
+Proof.
+  intros. split. symmetry. apply R_length; auto.
+  intros j a b _ Ha Hb. destruct (R_nth _ _ H _ _ Ha) as (n' & Hn & Hs). congruence.
+Qed.
+
+Lemma Rx_update : forall i h x, Rx i h (update h i x).
+Proof.
+  intros. split. symmetry. apply update_length.
+  intros j a b Hj Ha Hb. rewrite nth_update_other in Hb; auto. assert (a = b) by congruence. subst. apply step_rel_refl.
+Qed.
+
+Lemma Rx_trans : forall i a b c, Rx i a b -> Rx i b c -> Rx i a c.
+Proof.
+  intros i a b c (L1 & H1) (L2 & H2). split. congruence.
+  intros j x z Hj Hx Hz. destruct (nth_error b j) as [y|] eqn:Hy.
+  - eapply step_rel_trans; eauto.
+  - apply nth_error_None in Hy. apply nth_error_lt in Hx. lia.
+Qed.
+
+Lemma finish_R : forall coll h i p tp w hX tX,
+  wf coll hX = true -> nth_error h i = Some (NAlias p tp None false w) -> Rx i h hX ->
+  nth_error hX i = Some (NAlias p tp tX true w) ->
+  (R h (set_passed hX i false) /\ wf coll (set_passed hX i false) = true) /\
+  nth_error (set_passed hX i false) i = Some (NAlias p tp tX false w).
+Proof.
+  intros coll h i p tp w hX tX Hw Hn (Hl & Hx) HnX. unfold set_passed. rewrite HnX. split; [split|].
+  - eapply R_frame; eauto. simpl. auto 10.
+  - eapply wf_update_alias; eauto. pose proof (wf_node _ _ _ _ Hw HnX) as X. simpl in *. auto.
+  - apply nth_update_same. eapply nth_error_lt; eauto.
+Qed.
+
+Lemma finish : forall coll h i p tp w hX tX,
+  wf coll hX = true -> nth_error h i = Some (NAlias p tp None false w) -> Rx i h hX ->
+  nth_error hX i = Some (NAlias p tp tX true w) ->
+  (targets_complete h = true -> targets_complete hX = true) ->
+  Post coll h (set_passed hX i false) /\ nth_error (set_passed hX i false) i = Some (NAlias p tp tX false w).
+Proof.
+  intros coll h i p tp w hX tX Hw Hn (Hl & Hx) HnX Htc. unfold set_passed. rewrite HnX. split; [split; [|split]|].
+  - eapply R_frame; eauto. simpl. auto 10.
+  - eapply wf_update_alias; eauto. pose proof (wf_node _ _ _ _ Hw HnX) as X. simpl in *. auto.
+  - intros T. eapply tc_flag; eauto.
+  - apply nth_update_same. eapply nth_error_lt; eauto.
+Qed.
+
+Definition rt_post (coll : list (string * nat)) (h : heap) (i : nat) (X : heap * res unit) : Prop :=
+  Post coll h (fst X) /\ good (snd X) /\ nokey (snd X) /\
+  (snd X = Ok tt -> resolved_in (fst X) i) /\
+  (forall e, snd X = Err e -> link_of (fst X) i = None).
+
+Lemma resolve_body_spec : forall coll L k rt,
+  (forall h i p tp pa w, P coll L k h -> nth_error h i = Some (NAlias p tp None pa w) -> rt_post coll h i (rt h i)) ->
+  forall h i p tp pa w, P coll L (S k) h -> nth_error h i = Some (NAlias p tp None pa w) ->
+    rt_post coll h i (resolve_body coll L rt h i).
+Proof.
+  intros coll L k rt rt_spec h i p tp pa w HP Hn. unfold resolve_body. rewrite Hn. destruct pa.
+  { red. simpl. split. apply Post_refl; apply HP. split; auto with c06. split; auto with c06.
+    split. intros; discriminate. intros _ _. unfold link_of. rewrite Hn. auto. }
+  assert (Ehh : set_passed h i true = update h i (NAlias p tp None true w)) by (unfold set_passed; rewrite Hn; auto).
+  rewrite Ehh. clear Ehh. set (hh := update h i (NAlias p tp None true w)).
+  assert (Hi : i < List.length h) by (eapply nth_error_lt; eauto).
+  assert (Hnh : nth_error hh i = Some (NAlias p tp None true w)) by (apply nth_update_same; auto).
+  pose proof (wf_node _ _ _ _ (proj1 HP) Hn) as Hnok. simpl in Hnok.
+  assert (Htp : tp <> []) by (destruct tp; [discriminate | congruence]).
+  assert (HPh : P coll L k hh).
+  { destruct HP as (Hw & Hu & Hl). split; [|split].
+    - eapply wf_update_alias; eauto.
+    - pose proof (unpassed_set_true h i p tp None w Hn). fold hh in H. lia.
+    - unfold hh. erewrite count_aliases_update; eauto. }
+  assert (Hxh : Rx i h hh) by apply Rx_update.
+  assert (Htch : targets_complete h = true -> targets_complete hh = true) by (intros; eapply tc_flag; eauto).
+  (* whatever happened in between, the alias' own node only changes through this call *)
+  assert (Own : forall hX, Post coll hh hX -> nth_error hX i = Some (NAlias p tp None true w)).
+  { intros hX (HR & _). destruct (R_nth_alias _ _ _ _ _ _ _ _ HR Hnh) as (tX & HnX & [E | [_ E]]); congruence. }
+  (* error exits: the link is untouched, the flag is reset *)
+  assert (Exit : forall hX (e : err), Post coll hh hX -> good (@Err unit e) -> nokey (@Err unit e) ->
+            rt_post coll h i (set_passed hX i false, @Err unit e)).
+  { intros hX e HPo Hg Hk. pose proof (Own hX HPo) as HnX. destruct HPo as (HR & HwX & HtX).
+    destruct (finish coll h i p tp w hX None HwX Hn (Rx_trans _ _ _ _ Hxh (Rx_of_R i _ _ HR)) HnX) as (F1 & F2); auto.
+    red. simpl. split; auto. split; auto. split; auto. split. intros; discriminate.
+    intros _ _. unfold link_of. rewrite F2. auto. }
+  (* the success exit: the link is stored on a heap where the target's chain is complete *)
+  assert (Store : forall h4 r o, Post coll hh h4 -> ref_ok h4 r = true -> chain_end (fuelL h4) h4 r [] = Some o ->
+            rt_post coll h i (set_passed (set_target h4 i r) i false, @Ok unit tt)).
+  { intros h4 r o HPo Hok4 Hch. pose proof (Own h4 HPo) as Hn4. destruct HPo as (HR & Hw4 & Ht4).
+    unfold set_target. rewrite Hn4. set (h5 := update h4 i (NAlias p tp (Some r) true w)).
+    assert (Hi4 : i < List.length h4) by (eapply nth_error_lt; eauto).
+    assert (Hn5 : nth_error h5 i = Some (NAlias p tp (Some r) true w)) by (apply nth_update_same; auto).
+    assert (Hw5 : wf coll h5 = true).
+    { eapply wf_update_alias; eauto. simpl. rewrite Hok4. destruct tp; auto. }
+    assert (Hx5 : Rx i h h5).
+    { eapply Rx_trans; [exact Hxh|]. eapply Rx_trans; [apply Rx_of_R; exact HR|]. apply Rx_update. }
+    assert (Ht5 : targets_complete h = true -> targets_complete h5 = true).
+    { intros T. eapply tc_set_target; eauto. }
+    destruct (finish coll h i p tp w h5 (Some r) Hw5 Hn Hx5 Hn5 Ht5) as (F1 & F2).
+    red. simpl. split; auto. split; auto with c06. split; auto with c06. split.
+    - intros _. red. eauto 10.
+    - intros; discriminate. }
+  unfold resolve_inner.
+  destruct (get_member_spec coll L k rt rt_spec hh tp HPh Htp) as (HPo1 & Hg1 & Hr1).
+  destruct (get_member coll L rt hh tp) as [h1 g]. simpl in Hg1, Hr1, HPo1.
+  destruct g as [r | e].
+  2:{ destruct e; try (apply Exit; auto with c06; try (eapply good_err; eauto); discriminate). }
+  destruct (ref_eqb r (RReal i)). { apply Exit; auto with c06. }
+  assert (HP1 : P coll L k h1) by (eapply P_Post; eauto).
+  specialize (Hr1 r eq_refl).
+  set (U := match r with
+            | RReal j => match nth_error h1 j with
+                         | Some (NAlias _ _ None _ _) => rt h1 j
+                         | _ => (h1, Ok tt)
+                         end
+            | RVirt _ _ => (h1, Ok tt)
+            end).
+  assert (HU : Post coll h1 (fst U) /\ good (snd U) /\ nokey (snd U)).
+  { assert (D : Post coll h1 (fst (h1, @Ok unit tt)) /\ good (snd (h1, @Ok unit tt)) /\ nokey (snd (h1, @Ok unit tt))).
+    { simpl. split. apply Post_refl; apply HP1. split; auto with c06. }
+    subst U. destruct r as [j | vp j]; auto.
+    destruct (nth_error h1 j) as [[? ? ? | pj tpj [tj|] paj wj]|] eqn:Hj; auto.
+    destruct (rt_spec h1 j pj tpj paj wj HP1 Hj) as (A & B & C & _). auto. }
+  destruct U as [h2 u]. simpl in HU. destruct HU as (HPo2 & Hg2 & Hk2).
+  assert (HPo12 : Post coll hh h2) by (eapply Post_trans; eauto).
+  destruct u as [u | e]. 2:{ apply Exit; auto. }
+  assert (Hok2 : ref_ok h2 r = true).
+  { rewrite (ref_ok_len h1 h2); auto. symmetry. apply R_length. apply HPo2. }
+  assert (HP2 : P coll L k h2) by (eapply P_Post; eauto).
+  destruct (ref_is_alias h2 r) as [[|]|] eqn:Hal.
+  - destruct (final_target_top coll L k rt rt_spec h2 r HP2 Hok2) as (HPo4 & Hg4 & Hk4 & _).
+    assert (Hm : 2 * cnt_unseen h2 [] + vbit r < L).
+    { rewrite cnt_unseen_nil. destruct HP2 as (_ & _ & HL). assert (vbit r <= 1) by (destruct r; simpl; lia). lia. }
+    pose proof (final_target_chain coll L k rt rt_spec L h2 r [] ) as Hch.
+    destruct (final_target rt L h2 r []) as [h4 f]. simpl in HPo4, Hg4, Hk4, Hch.
+    assert (HPo14 : Post coll hh h4) by (eapply Post_trans; eauto).
+    destruct f as [o | e].
+    + specialize (Hch o HP2 Hok2 Hm eq_refl).
+      apply (Store h4 r o); auto.
+      * rewrite (ref_ok_len h2 h4); auto. symmetry. apply R_length. apply HPo4.
+      * eapply chain_end_fuel; eauto. rewrite cnt_unseen_nil. unfold fuelL.
+        assert (vbit r <= 1) by (destruct r; simpl; lia). lia.
+    + apply Exit; auto; [eapply good_err; eauto | eapply nokey_err; eauto].
+  - destruct (ref_is_alias_obj _ _ Hal) as (j & pj & c & ms & Hr & Hnj). subst r.
+    apply (Store h2 (RReal j) j); auto.
+    replace (fuelL h2) with (S (2 * count_aliases h2 + 2)) by (unfold fuelL; lia). simpl. rewrite Hnj. auto.
+  - exfalso. eapply ref_ok_is_alias; eauto.
+Qed.
+
+(* Termination, error discipline, monotonicity and flag restoration of resolve_target, for every heap:
+   with more fuel than there are aliases whose flag is down, the recursion never runs out. *)
+Theorem resolve_target_spec : forall coll L n h i p tp pa w,
+  P coll L n h -> nth_error h i = Some (NAlias p tp None pa w) -> rt_post coll h i (resolve_target coll L n h i).
+Proof.
+  induction n; intros h i p tp pa w HP Hn.
+  - destruct HP as (_ & Hu & _). lia.
+  - simpl. eapply resolve_body_spec; eauto.
+Qed.
+
+(* ------------------------------------------------------------------------------------------------------------ *)
+(* top-level statements                                                                                          *)
+(* ------------------------------------------------------------------------------------------------------------ *)
+Lemma P_top : forall coll h, wf coll h = true -> P coll (fuelL h) (fuelN h) h.
+Proof.
+  intros. split; auto. unfold fuelN, fuelL. pose proof (unpassed_le_count h). lia.
+Qed.
+
+Lemma outcome_cases : forall A (r : res A), good r -> nokey r ->
+  (exists a, r = Ok a) \/ (exists q, r = Err (EARE q)) \/ r = Err ECyc.
+Proof.
+  intros A r [H1 H2] H3. destruct r as [a | e]; eauto. destruct e; eauto; congruence.
+Qed.
+
+(* Alias.resolve_target on any well-formed heap (any import graph, any state of the flags): with the fuel the model
+   uses the call returns, its outcome is success, AliasResolutionError or CyclicAliasError; on success the alias is
+   resolved, on failure its link is still unset (all-or-nothing for the alias itself); every flag is back to what it
+   was, stored links are untouched, and if every stored link led to an object before, every stored link does after. *)
+Theorem resolve_top_total : forall coll h i p tp pa w,
+  wf coll h = true -> nth_error h i = Some (NAlias p tp None pa w) ->
+  let h' := fst (resolve_top coll h i) in
+  let r := snd (resolve_top coll h i) in
+  (r = Ok tt /\ resolved_in h' i \/ (exists q, r = Err (EARE q)) \/ r = Err ECyc) /\
+  (forall e, r = Err e -> link_of h' i = None) /\
+  wf coll h' = true /\ flags h' = flags h /\ (forall j t, link_of h j = Some t -> link_of h' j = Some t) /\
+  (targets_complete h = true -> targets_complete h' = true).
+Proof.
+  intros coll h i p tp pa w Hw Hn. unfold resolve_top.
+  destruct (resolve_target_spec coll (fuelL h) (fuelN h) h i p tp pa w (P_top _ _ Hw) Hn)
+    as ((HR & Hw' & Htc) & Hg & Hk & Hres & Herr).
+  cbv zeta. split; [|split; [auto | split; [auto | split; [apply R_flags; auto | split; [intros; eapply R_link; eauto | auto]]]]].
+  destruct (outcome_cases _ _ Hg Hk) as [[[] E]|[E|E]]; auto.
+Qed.
+
+(* Alias.final_target (hence kind, members, every proxied attribute) on any well-formed heap *)
+Theorem deref_total : forall coll h i,
+  wf coll h = true -> i < List.length h ->
+  let h' := fst (deref_top coll h i) in
+  let r := snd (deref_top coll h i) in
+  ((exists o p c ms, r = Ok o /\ nth_error h' o = Some (NObj p c ms)) \/ (exists q, r = Err (EARE q)) \/ r = Err ECyc) /\
+  wf coll h' = true /\ flags h' = flags h /\ (forall j t, link_of h j = Some t -> link_of h' j = Some t) /\
+  (targets_complete h = true -> targets_complete h' = true).
+Proof.
+  intros coll h i Hw Hi. unfold deref_top.
+  assert (Hok : ref_ok h (RReal i) = true) by (simpl; apply Nat.ltb_lt; auto).
+  destruct (final_target_top coll (fuelL h) (fuelN h) (resolve_target coll (fuelL h) (fuelN h))
+              (fun h0 i0 p tp pa w => resolve_target_spec coll (fuelL h) (fuelN h) h0 i0 p tp pa w)
+              h (RReal i) (P_top _ _ Hw) Hok) as ((HR & Hw' & Htc) & Hg & Hk & Ho).
+  cbv zeta. split; [|split; [auto | split; [apply R_flags; auto | split; [intros; eapply R_link; eauto | auto]]]].
+  destruct (outcome_cases _ _ Hg Hk) as [[o E]|[E|E]]; auto.
+  left. destruct (Ho o E) as (p & c & ms & Hn). eauto 10.
+Qed.
+
+(* ------------------------------------------------------------------------------------------------------------ *)
+(* loader level: resolve_module_aliases, one pass over the collection, the fixpoint loop                         *)
+(* ------------------------------------------------------------------------------------------------------------ *)
+Lemma resolve_top_spec : forall coll h i p tp pa w,
+  wf coll h = true -> nth_error h i = Some (NAlias p tp None pa w) -> rt_post coll h i (resolve_top coll h i).
+Proof.
+  intros. unfold resolve_top. eapply resolve_target_spec; eauto. apply P_top; auto.
+Qed.
+
+Lemma deref_top_spec : forall coll h i,
+  wf coll h = true -> i < List.length h ->
+  Post coll h (fst (deref_top coll h i)) /\ good (snd (deref_top coll h i)) /\ nokey (snd (deref_top coll h i)).
+Proof.
+  intros coll h i Hw Hi. unfold deref_top.
+  assert (Hok : ref_ok h (RReal i) = true) by (simpl; apply Nat.ltb_lt; auto).
+  destruct (final_target_top coll (fuelL h) (fuelN h) (resolve_target coll (fuelL h) (fuelN h))
+              (fun h0 i0 p tp pa w => resolve_target_spec coll (fuelL h) (fuelN h) h0 i0 p tp pa w)
+              h (RReal i) (P_top _ _ Hw) Hok) as (A & B & C & _). auto.
+Qed.
+
+Definition seen_le (s s' : list string) : Prop := forall p, mem_str p s = true -> mem_str p s' = true.
+
+Lemma seen_le_refl : forall s, seen_le s s. Proof. red; auto. Qed.
+Lemma seen_le_trans : forall a b c, seen_le a b -> seen_le b c -> seen_le a c. Proof. unfold seen_le; auto. Qed.
+Lemma seen_le_cons : forall s p, seen_le s (p :: s).
+Proof. unfold seen_le. intros. simpl. destruct (String.eqb p0 p); auto. Qed.
+
+Definition unseen_obj (seen : list string) (n : node) : bool :=
+  match n with NObj p _ _ => negb (mem_str p seen) | _ => false end.
+Definition cnt_obj (h : heap) (seen : list string) : nat := List.length (filter (unseen_obj seen) h).
+
+Lemma R_cnt_obj : forall h h' seen, R h h' -> cnt_obj h' seen = cnt_obj h seen.
+Proof.
+  unfold cnt_obj. induction 1; simpl; auto.
+  assert (unseen_obj seen y = unseen_obj seen x).
+  { destruct x, y; simpl in *; try tauto. destruct H as (?&?). subst. auto. }
+  rewrite H1. destruct (unseen_obj seen x); simpl; auto.
+Qed.
+
+Lemma cnt_obj_mono : forall h s s', seen_le s s' -> cnt_obj h s' <= cnt_obj h s.
+Proof.
+  unfold cnt_obj. induction h; simpl; intros; auto. specialize (IHh _ _ H).
+  destruct (unseen_obj s' a) eqn:E.
+  - assert (unseen_obj s a = true).
+    { destruct a; simpl in *; try discriminate. destruct (mem_str path s) eqn:M; auto.
+      rewrite (H _ M) in E. discriminate. }
+    rewrite H0. simpl. lia.
+  - destruct (unseen_obj s a); simpl; lia.
+Qed.
+
+Lemma cnt_obj_cons_lt : forall h seen i p c ms, nth_error h i = Some (NObj p c ms) -> mem_str p seen = false ->
+  cnt_obj h (p :: seen) < cnt_obj h seen.
+Proof.
+  unfold cnt_obj. induction h; destruct i; simpl; intros; try discriminate.
+  - inversion H; subst. simpl. rewrite String.eqb_refl. rewrite H0. simpl.
+    pose proof (cnt_obj_mono h seen (p :: seen) (seen_le_cons _ _)) as X. unfold cnt_obj in X. lia.
+  - specialize (IHh seen i p c ms H H0).
+    pose proof (cnt_obj_mono [a] seen (p :: seen) (seen_le_cons _ _)) as X. unfold cnt_obj in X. simpl in X.
+    destruct (unseen_obj (p :: seen) a); destruct (unseen_obj seen a); simpl in *; lia.
+Qed.
+
+Lemma cnt_obj_le_length : forall h seen, cnt_obj h seen <= List.length h.
+Proof. unfold cnt_obj. induction h; simpl; intros; auto. destruct (unseen_obj seen a); simpl; specialize (IHh seen); lia. Qed.
+
+(* the while loop of resolve_aliases: every pass that does not end the loop stores at least one new link *)
+Definition unres_node (n : node) : bool := match n with NAlias _ _ None _ _ => true | _ => false end.
+Definition unres_count (h : heap) : nat := List.length (filter unres_node h).
+
+Lemma unres_le_count : forall h, unres_count h <= count_aliases h.
+Proof.
+  unfold unres_count, count_aliases. induction h; simpl; auto.
+  destruct a; simpl; auto. destruct target; simpl; lia.
+Qed.
+
+Lemma R_unres : forall h h', R h h' -> unres_count h' <= unres_count h /\ (unres_count h' = unres_count h -> h' = h).
+Proof.
+  unfold unres_count. induction 1; simpl. auto.
+  destruct IHForall2 as [IH1 IH2].
+  destruct x as [p c ms | p tp t pa w], y as [p' c' ms' | p' tp' t' pa' w']; simpl in H; try tauto.
+  - destruct H as (?&?&?). subst. simpl. split; auto. intros. f_equal. auto.
+  - destruct H as (?&?&?&?&Ht). subst. destruct Ht as [Ht | [Ht Hp]]; subst.
+    + destruct t; simpl; split; try lia; intros; f_equal; apply IH2; lia.
+    + destruct t'; simpl; split; try lia; intros; try (f_equal; apply IH2; lia).
+Qed.
+
+Lemma unres_node_step : forall x y, step_rel x y ->
+  (if unres_node y then 1 else 0) <= (if unres_node x then 1 else 0).
+Proof.
+  destruct x as [pp c ms | p tp t pa w], y as [pp' c' ms' | p' tp' t' pa' w']; simpl; intros; try tauto; auto.
+  destruct H as (?&?&?&?&Ht). destruct t, t'; simpl; try lia. destruct Ht as [Ht|[Ht _]]; discriminate.
+Qed.
+
+Lemma R_unres_strict : forall h h', R h h' -> forall m p tp pa w,
+  nth_error h m = Some (NAlias p tp None pa w) -> resolved_in h' m -> unres_count h' < unres_count h.
+Proof.
+  unfold unres_count. induction 1; intros m p tp pa w Hn Hr. destruct m; discriminate.
+  pose proof (unres_node_step _ _ H) as Hs. pose proof (proj1 (R_unres _ _ H0)) as Hle. unfold unres_count in Hle.
+  destruct m; simpl in *.
+  - inversion Hn; subst. destruct Hr as (p' & tp' & t' & pa' & w' & Hy). simpl in Hy. inversion Hy; subst. simpl. lia.
+  - assert (Hr' : resolved_in l' m). { destruct Hr as (p' & tp' & t' & pa' & w' & Hy). red. eauto 10. }
+    specialize (IHForall2 m p tp pa w Hn Hr').
+    destruct (unres_node y), (unres_node x); simpl in *; lia.
+Qed.
+
+Definition acct (a : acc) : nat := List.length (a_resolved a) + unres_count (a_heap a).
+
+Section LoaderSpec.
+  Variable coll : list (string * nat).
+
+  Lemma visit_alias_spec : forall a m p p' tp pa w,
+    wf coll (a_heap a) = true -> nth_error (a_heap a) m = Some (NAlias p' tp None pa w) ->
+    Post coll (a_heap a) (a_heap (fst (visit_alias coll a m p))) /\ good (snd (visit_alias coll a m p)) /\
+    nokey (snd (visit_alias coll a m p)) /\ a_seen (fst (visit_alias coll a m p)) = a_seen a /\
+    acct (fst (visit_alias coll a m p)) <= acct a.
+  Proof.
+    intros a m p p' tp pa w Hw Hn. unfold visit_alias.
+    destruct (resolve_top_spec coll (a_heap a) m p' tp pa w Hw Hn) as (HPo & Hg & Hk & Hres & _).
+    destruct (resolve_top coll (a_heap a) m) as [h1 r]. simpl in *.
+    pose proof (proj1 (R_unres _ _ (proj1 HPo))) as Hle1.
+    destruct r as [u | e].
+    - assert (Hm : m < List.length h1).
+      { rewrite (R_length _ _ (proj1 HPo)). eapply nth_error_lt; eauto. }
+      destruct u. pose proof (R_unres_strict _ _ (proj1 HPo) _ _ _ _ _ Hn (Hres eq_refl)) as Hlt.
+      destruct (deref_top_spec coll h1 m (Post_wf _ _ _ HPo) Hm) as (HPo2 & Hg2 & Hk2).
+      destruct (deref_top coll h1 m) as [h2 f]. simpl in *.
+      pose proof (proj1 (R_unres _ _ (proj1 HPo2))) as Hle2.
+      destruct f as [o | e]; simpl.
+      + split. eapply Post_trans; eauto. split; auto with c06. split; auto with c06. split; auto.
+        unfold acct. simpl. lia.
+      + split. eapply Post_trans; eauto. split. eapply good_err; eauto. split. eapply nokey_err; eauto. split; auto.
+        unfold acct. simpl. lia.
+    - destruct e; simpl; (split; [auto | split; [auto with c06; try (eapply good_err; eauto) |
+        split; [auto with c06; try (eapply nokey_err; eauto) | split; [auto | unfold acct; simpl; lia]]]]).
+  Qed.
+
+  Definition obj_unseen (a : acc) (m : nat) : Prop :=
+    exists p c ms, nth_error (a_heap a) m = Some (NObj p c ms) /\ mem_str p (a_seen a) = false.
+
+  Definition rec_spec (d : nat) (recur : acc -> nat -> acc * res unit) : Prop :=
+    forall a m, wf coll (a_heap a) = true -> obj_unseen a m -> cnt_obj (a_heap a) (a_seen a) < d ->
+      Post coll (a_heap a) (a_heap (fst (recur a m))) /\ good (snd (recur a m)) /\ nokey (snd (recur a m)) /\
+      seen_le (a_seen a) (a_seen (fst (recur a m))) /\ acct (fst (recur a m)) <= acct a.
+
+  Lemma members_loop_spec : forall d recur, rec_spec d recur ->
+    forall ms a, wf coll (a_heap a) = true ->
+      forallb (fun kv : string * nat => snd kv <? List.length (a_heap a)) ms = true ->
+      cnt_obj (a_heap a) (a_seen a) < d ->
+      Post coll (a_heap a) (a_heap (fst (members_loop coll recur a ms))) /\ good (snd (members_loop coll recur a ms)) /\
+      nokey (snd (members_loop coll recur a ms)) /\ seen_le (a_seen a) (a_seen (fst (members_loop coll recur a ms))) /\
+      acct (fst (members_loop coll recur a ms)) <= acct a.
+  Proof.
+    intros d recur Hrec. induction ms as [|[nm m] ms]; intros a Hw Hr Hc; simpl.
+    - split. apply Post_refl; auto. split; auto with c06. split; auto with c06. split. apply seen_le_refl. lia.
+    - simpl in Hr. apply andb_true_iff in Hr. destruct Hr as [Hm Hr]. apply Nat.ltb_lt in Hm.
+      assert (Step : forall a' (r : res unit),
+                Post coll (a_heap a) (a_heap a') -> good r -> nokey r -> seen_le (a_seen a) (a_seen a') ->
+                acct a' <= acct a ->
+                let res := match r with Err e => (a', Err e) | Ok _ => members_loop coll recur a' ms end in
+                Post coll (a_heap a) (a_heap (fst res)) /\ good (snd res) /\ nokey (snd res) /\
+                seen_le (a_seen a) (a_seen (fst res)) /\ acct (fst res) <= acct a).
+      { intros a' r HPo Hg Hk Hs Hac. destruct r as [u | e]; cbv zeta.
+        - assert (Hr' : forallb (fun kv : string * nat => snd kv <? List.length (a_heap a')) ms = true).
+          { rewrite (R_length _ _ (proj1 HPo)). auto. }
+          assert (Hc' : cnt_obj (a_heap a') (a_seen a') < d).
+          { rewrite (R_cnt_obj _ _ _ (proj1 HPo)). pose proof (cnt_obj_mono (a_heap a) _ _ Hs). lia. }
+          destruct (IHms a' (Post_wf _ _ _ HPo) Hr' Hc') as (A & B & C & D & E).
+          split. eapply Post_trans; eauto. split; auto. split; auto. split. eapply seen_le_trans; eauto. lia.
+        - simpl. auto. }
+      destruct (nth_error (a_heap a) m) as [[mp c mms | p tp t pa w]|] eqn:Hn.
+      + destruct (c && negb (mem_str mp (a_seen a))) eqn:Hcond.
+        * apply andb_true_iff in Hcond. destruct Hcond as [_ Hcond]. apply negb_true_iff in Hcond.
+          assert (Hou : obj_unseen a m) by (red; eauto).
+          destruct (Hrec a m Hw Hou Hc) as (A & B & C & D & E).
+          destruct (recur a m) as [a' r]. simpl in *. apply (Step a' r); auto.
+        * apply IHms; auto.
+      + destruct (w || match t with Some _ => true | None => false end) eqn:Hcond.
+        * apply IHms; auto.
+        * apply orb_false_iff in Hcond. destruct Hcond as [_ Ht]. destruct t; try discriminate.
+          destruct (visit_alias_spec a m p p tp pa w Hw Hn) as (A & B & C & D & E).
+          destruct (visit_alias coll a m p) as [a' r]. simpl in *. apply (Step a' r); auto.
+          rewrite D. apply seen_le_refl.
+      + apply nth_error_None in Hn. lia.
+  Qed.
+
+  Lemma rma_spec : forall d, rec_spec d (rma coll d).
+  Proof.
+    induction d; intros a o Hw (p & c & ms & Hn & Hmem) Hc. lia.
+    simpl. rewrite Hn.
+    set (a0 := mkAcc (a_heap a) (p :: a_seen a) (a_resolved a) (a_unresolved a)).
+    assert (Hc0 : cnt_obj (a_heap a0) (a_seen a0) < d).
+    { simpl. pose proof (cnt_obj_cons_lt _ _ _ _ _ _ Hn Hmem). lia. }
+    pose proof (wf_node _ _ _ _ Hw Hn) as Hms. simpl in Hms.
+    destruct (members_loop_spec d (rma coll d) IHd ms a0 Hw Hms Hc0) as (A & B & C & D & E).
+    split; auto. split; auto. split; auto. split. eapply seen_le_trans; [apply seen_le_cons | exact D].
+    unfold acct in *. simpl in *. lia.
+  Qed.
+
+  Opaque rma.
+  Lemma pass_modules_spec : forall mods h unres rsv,
+    wf coll h = true ->
+    (forall kv, In kv mods -> exists p c ms, nth_error h (snd kv) = Some (NObj p c ms)) ->
+    Post coll h (fst (pass_modules coll h mods unres rsv)) /\ good (snd (pass_modules coll h mods unres rsv)) /\
+    nokey (snd (pass_modules coll h mods unres rsv)) /\
+    (forall u r, snd (pass_modules coll h mods unres rsv) = Ok (u, r) ->
+       List.length r + unres_count (fst (pass_modules coll h mods unres rsv)) <= List.length rsv + unres_count h).
+  Proof.
+    induction mods as [|[nm m] mods]; intros h unres rsv Hw Hm; simpl.
+    - split. apply Post_refl; auto. split; auto with c06. split; auto with c06.
+      intros u r E. inversion E; subst. lia.
+    - set (a0 := mkAcc h [] rsv unres).
+      destruct (Hm (nm, m) (or_introl eq_refl)) as (p & c & ms & Hn).
+      assert (Hou : obj_unseen a0 m) by (red; simpl; eauto).
+      assert (Hc : cnt_obj (a_heap a0) (a_seen a0) < S (List.length h)).
+      { simpl. pose proof (cnt_obj_le_length h []). lia. }
+      destruct (rma_spec (S (List.length h)) a0 m Hw Hou Hc) as (A & B & C & _ & E).
+      destruct (rma coll (S (List.length h)) a0 m) as [a r]. simpl in A, B, C, E.
+      destruct r as [u | e].
+      + assert (Hm' : forall kv, In kv mods -> exists p c ms, nth_error (a_heap a) (snd kv) = Some (NObj p c ms)).
+        { intros kv Hin. destruct (Hm kv (or_intror Hin)) as (p' & c' & ms' & Hn'). exists p', c', ms'.
+          eapply R_nth_obj; eauto. apply A. }
+        destruct (IHmods (a_heap a) (a_unresolved a) (a_resolved a) (Post_wf _ _ _ A) Hm') as (A2 & B2 & C2 & D2).
+        simpl. split. eapply Post_trans; eauto. split; auto. split; auto.
+        intros u' r' E'. specialize (D2 u' r' E'). unfold acct in E. simpl in E. lia.
+      + simpl. split; auto. split. eapply good_err; eauto. split. eapply nokey_err; eauto. intros; discriminate.
+  Qed.
+  Transparent rma.
+
+  Lemma one_pass_spec : forall h, wf coll h = true ->
+    Post coll h (fst (one_pass coll h)) /\ good (snd (one_pass coll h)) /\ nokey (snd (one_pass coll h)) /\
+    (forall u r, snd (one_pass coll h) = Ok (u, r) -> List.length r + unres_count (fst (one_pass coll h)) <= unres_count h).
+  Proof.
+    intros. unfold one_pass.
+    assert (Hm : forall kv, In kv coll -> exists p c ms, nth_error h (snd kv) = Some (NObj p c ms)).
+    { intros kv Hin. unfold wf, coll_ok in H. apply andb_true_iff in H. destruct H as [_ H].
+      rewrite forallb_forall in H. specialize (H kv Hin).
+      destruct (nth_error h (snd kv)) as [[| ]|]; try discriminate. eauto. }
+    destruct (pass_modules_spec coll h [] [] H Hm) as (A & B & C & D).
+    split; [auto | split; [auto | split; [auto | intros u r E; specialize (D u r E); simpl in D; lia]]].
+  Qed.
+End LoaderSpec.
+
+Lemma incl_str_refl : forall l, incl_str l l = true.
+Proof.
+  unfold incl_str. intros. apply forallb_forall. intros x Hx. apply mem_str_In. auto.
+Qed.
+
+Lemma set_eq_refl : forall l, set_eq l l = true.
+Proof. unfold set_eq. intros. rewrite incl_str_refl. auto. Qed.
+
+Lemma ra_loop_spec : forall coll k h prev it,
+  wf coll h = true -> unres_count h + 2 <= k ->
+  Post coll h (fst (ra_loop coll k h prev it)) /\ good (snd (ra_loop coll k h prev it)) /\
+  nokey (snd (ra_loop coll k h prev it)).
+Proof.
+  induction k; intros h prev it Hw Hk. lia.
+  simpl. destruct (one_pass_spec coll h Hw) as (HPo & Hg & Hkk & Hac).
+  destruct (one_pass coll h) as [h' r] eqn:E1. simpl in *.
+  destruct r as [[unres rsv] | e].
+  2:{ simpl. split; auto. split. eapply good_err; eauto. eapply nokey_err; eauto. }
+  specialize (Hac unres rsv eq_refl).
+  destruct unres as [|u0 us].
+  { simpl. split; auto. split; auto with c06. }
+  destruct (is_nil rsv && set_eq (u0 :: us) prev).
+  { simpl. split; auto. split; auto with c06. }
+  destruct (R_unres _ _ (proj1 HPo)) as [Hle Heq].
+  destruct (Nat.eq_dec (unres_count h') (unres_count h)) as [Hsame | Hless].
+  - (* nothing changed in this pass: nothing was resolved, the next pass repeats it and the loop stops *)
+    specialize (Heq Hsame). subst h'.
+    assert (rsv = []) by (destruct rsv; simpl in Hac; [auto | lia]). subst rsv.
+    destruct k as [|k']. lia.
+    simpl. rewrite E1. rewrite set_eq_refl. simpl. split; auto. split; auto with c06.
+  - assert (Hk' : unres_count h' + 2 <= k) by lia.
+    destruct (IHk h' (u0 :: us) (S it) (Post_wf _ _ _ HPo) Hk') as (A & B & C).
+    split. eapply Post_trans; eauto. auto.
+Qed.
+
+(* GriffeLoader.resolve_aliases on any well-formed heap: the loop stops within #aliases+2 passes, the recursions never
+   run out of fuel, flags are restored, stored links untouched; the only errors that can leave it are the two alias
+   errors (from the eager `member.final_target.path` of the debug message). *)
+Theorem resolve_aliases_total : forall coll h,
+  wf coll h = true ->
+  let h' := fst (resolve_aliases coll h) in
+  let r := snd (resolve_aliases coll h) in
+  ((exists u it, r = Ok (u, it)) \/ (exists q, r = Err (EARE q)) \/ r = Err ECyc) /\
+  wf coll h' = true /\ flags h' = flags h /\ (forall j t, link_of h j = Some t -> link_of h' j = Some t) /\
+  (targets_complete h = true -> targets_complete h' = true).
+Proof.
+  intros coll h Hw. unfold resolve_aliases.
+  assert (Hk : unres_count h + 2 <= count_aliases h + 2) by (pose proof (unres_le_count h); lia).
+  destruct (ra_loop_spec coll (count_aliases h + 2) h [] 0 Hw Hk) as ((HR & Hw' & Htc) & Hg & Hkk).
+  cbv zeta. split; [|split; [auto | split; [apply R_flags; auto | split; [intros; eapply R_link; eauto | auto]]]].
+  destruct (outcome_cases _ _ Hg Hkk) as [[[u it] E]|[E|E]]; eauto.
+Qed.
+
+(* Fixpoint, conditional form: once a pass over the collection changes nothing, resolve_aliases is a no-op that
+   returns that pass' unresolved set. *)
+Theorem fixpoint_after_quiet_pass : forall coll h u rsv,
+  wf coll h = true -> one_pass coll h = (h, Ok (u, rsv)) ->
+  exists it, resolve_aliases coll h = (h, Ok (u, it)) /\ it <= 2.
+Proof.
+  intros coll h u rsv Hw E. unfold resolve_aliases.
+  destruct (one_pass_spec coll h Hw) as (_ & _ & _ & Hac). rewrite E in Hac. simpl in Hac.
+  specialize (Hac u rsv eq_refl). assert (rsv = []) by (destruct rsv; simpl in Hac; [auto | lia]). subst rsv.
+  replace (count_aliases h + 2) with (S (S (count_aliases h))) by lia.
+  simpl. rewrite E. destruct u as [|u0 us].
+  - exists 1. auto.
+  - unfold set_eq at 1. simpl. rewrite E. rewrite set_eq_refl. exists 2. auto.
+Qed.
+
+(* ------------------------------------------------------------------------------------------------------------ *)
+(* witnesses: heaps abstracted from real packages (harness/props/c06.py prints them; replayed on the implementation *)
+(* on every run as known findings C06-F3 / C06-F4)                                                                *)
+(* ------------------------------------------------------------------------------------------------------------ *)
+(* {"p": "import p.b as m", "p.b": "from p.zz import x", "p.a": "from p.m import x"} *)
+Definition w_through_coll : list (string * nat) := [("p", 0)].
+Definition w_through_heap : heap :=
+  [ NObj "p" true [("m", 1); ("a", 2); ("b", 4)];
+    NAlias "p.m" ["p"; "b"] None false false;
+    NObj "p.a" true [("x", 3)];
+    NAlias "p.a.x" ["p"; "m"; "x"] None false false;
+    NObj "p.b" true [("x", 5)];
+    NAlias "p.b.x" ["p"; "zz"; "x"] None false false ].
+
+(* {"p": "from p.a import *", "p.a": "from p.zz import x", "p.b": "from p import x", "p.c": "from p.b import x"},
+   after wildcard expansion: p.x is stored onto the unresolved alias p.a.x *)
+Definition w_pre_coll : list (string * nat) := [("p", 0)].
+Definition w_pre_heap : heap :=
+  [ NObj "p" true [("a", 1); ("c", 3); ("b", 5); ("x", 7)];
+    NObj "p.a" true [("x", 2)];
+    NAlias "p.a.x" ["p"; "zz"; "x"] None false false;
+    NObj "p.c" true [("x", 4)];
+    NAlias "p.c.x" ["p"; "b"; "x"] None false false;
+    NObj "p.b" true [("x", 6)];
+    NAlias "p.b.x" ["p"; "x"] None false false;
+    NAlias "p.x" ["p"; "a"; "x"] (Some (RReal 2)) false false ].
+
+(* a plain resolvable chain, a cycle, and a dangling chain: the hypotheses of the theorems are satisfiable and every
+   outcome class is reached *)
+Definition w_plain_coll : list (string * nat) := [("p", 0)].
+Definition w_plain_heap : heap :=
+  [ NObj "p" true [("x", 1); ("a", 2); ("y", 6); ("z", 7)];
+    NAlias "p.x" ["p"; "a"; "x"] None false false;
+    NObj "p.a" true [("x", 3); ("f", 4); ("y", 5)];
+    NAlias "p.a.x" ["p"; "a"; "f"] None false false;
+    NObj "p.a.f" false [];
+    NAlias "p.a.y" ["p"; "y"] None false false;
+    NAlias "p.y" ["p"; "a"; "y"] None false false;
+    NAlias "p.z" ["p"; "zz"; "z"] None false false ].
+
+Example plain_hypotheses :
+  wf w_plain_coll w_plain_heap = true /\ direct w_plain_coll w_plain_heap = true /\
+  chains_complete w_plain_heap = true /\ unique_paths w_plain_heap = true /\ no_passed w_plain_heap = true.
+Proof. vm_compute. auto. Qed.
+
+Example plain_outcomes :
+  snd (resolve_top w_plain_coll w_plain_heap 1) = Ok tt /\
+  snd (deref_top w_plain_coll w_plain_heap 1) = Ok 4 /\
+  snd (resolve_top w_plain_coll w_plain_heap 5) = Err ECyc /\
+  snd (resolve_top w_plain_coll w_plain_heap 7) = Err (EARE "p.z") /\
+  snd (resolve_aliases w_plain_coll w_plain_heap) = Ok (["p.z"], 2) /\
+  chains_complete (fst (resolve_aliases w_plain_coll w_plain_heap)) = true.
+Proof. vm_compute. auto 10. Qed.
+
+(* The former refutations of all-or-nothing and of the fixpoint (findings C06-F4 and the resolve_target side of C06-F3,
+   repaired): on the same heaps the failing resolve_target now leaves the alias unlinked, and the second
+   resolve_aliases returns what the first returned. *)
+Example passthrough_repaired :
+  snd (resolve_top w_through_coll w_through_heap 3) = Err (EARE "p.b.x") /\
+  link_of (fst (resolve_top w_through_coll w_through_heap 3)) 3 = None /\
+  link_of (fst (resolve_top w_through_coll w_through_heap 3)) 1 = Some (RReal 4) /\
+  targets_complete (fst (resolve_top w_through_coll w_through_heap 3)) = true.
+Proof. vm_compute. auto. Qed.
+
+Example preresolved_repaired :
+  targets_complete w_pre_heap = false /\
+  snd (resolve_top w_pre_coll w_pre_heap 6) = Err (EARE "p.a.x") /\
+  link_of (fst (resolve_top w_pre_coll w_pre_heap 6)) 6 = None /\
+  snd (resolve_aliases w_pre_coll w_pre_heap) = Ok (["p.b.x"; "p.c.x"; "p.a.x"], 2) /\
+  snd (resolve_aliases w_pre_coll (fst (resolve_aliases w_pre_coll w_pre_heap))) = Ok (["p.b.x"; "p.c.x"; "p.a.x"], 2).
+Proof. vm_compute. auto 10. Qed.
+
+Definition Inv (coll : list (string * nat)) (L : nat) (h : heap) : Prop :=
+  wf coll h = true /\ direct coll h = true /\ chains_complete_L L h = true /\ unique_paths h = true /\
+  2 * count_aliases h + 2 < L.
+
+Lemma direct_nth : forall coll h i p tp t pa w, direct coll h = true -> nth_error h i = Some (NAlias p tp t pa w) ->
+  (exists x, static_get coll h tp = Some x) /\ (forall vp j, t <> Some (RVirt vp j)).
+Proof.
+  unfold direct. intros. pose proof (forallb_nth _ _ _ _ _ H H0) as X. simpl in X.
+  apply andb_true_iff in X. destruct X as [X1 X2]. split.
+  - destruct (static_get coll h tp); try discriminate. eauto.
+  - intros vp j E. subst. discriminate.
+Qed.
+
+Lemma direct_no_virt : forall coll h, direct coll h = true -> no_virt h.
+Proof.
+  intros coll h Hd k p tp vp j pa w E. destruct (direct_nth _ _ _ _ _ _ _ _ Hd E) as [_ X]. eapply X; eauto.
 Qed.
 
 Lemma direct_update : forall coll h i p tp t pa w t' pa',
@@ -1299,15 +1459,14 @@ Definition aon_result (coll : list (string * nat)) (L : nat) (h : heap) (i : nat
 Definition aon_spec (coll : list (string * nat)) (L : nat) (rt : heap -> nat -> heap * res unit) : Prop :=
   forall h i p tp pa w, Inv coll L h -> nth_error h i = Some (NAlias p tp None pa w) -> aon_result coll L h i (rt h i).
 
-(* the end of _resolve_target once the target node j is known and resolved: store the link, dereference it *)
+(* the end of _resolve_target once the target node j is known and resolved: dereference it, then store the link *)
 Definition tail (L : nat) (rt : heap -> nat -> heap * res unit) (i j : nat) (h2 : heap) : heap * res unit :=
-  let h3 := set_target h2 i (RReal j) in
-  match ref_is_alias h3 (RReal j) with
-  | None => (h3, Err EBad)
-  | Some false => (h3, Ok tt)
+  match ref_is_alias h2 (RReal j) with
+  | None => (h2, Err EBad)
+  | Some false => (set_target h2 i (RReal j), Ok tt)
   | Some true =>
-      let '(h4, f) := final_target rt L h3 (RReal j) [] in
-      match f with Err e => (h4, Err e) | Ok _ => (h4, Ok tt) end
+      let '(h4, f) := final_target rt L h2 (RReal j) [] in
+      match f with Err e => (h4, Err e) | Ok _ => (set_target h4 i (RReal j), Ok tt) end
   end.
 
 Lemma resolve_body_aon : forall coll L rt, aon_spec coll L rt -> aon_spec coll L (resolve_body coll L rt).
@@ -1336,17 +1495,17 @@ Proof.
   { intros h2 (Hw2 & Hd2 & Hc2 & Hu2 & Hl2) HR2 Hj2.
     destruct (R_nth_alias _ _ _ _ _ _ _ _ HR2 Hnh) as (t2 & Hn2 & Ht2).
     assert (t2 = None) by (destruct Ht2 as [?|[_ ?]]; [auto | discriminate]). subst t2. clear Ht2.
-    unfold tail, set_target. rewrite Hn2. set (h3 := update h2 i (NAlias p tp (Some (RReal j)) true w)).
+    set (h3 := update h2 i (NAlias p tp (Some (RReal j)) true w)).
+    assert (Eh3 : set_target h2 i (RReal j) = h3) by (unfold set_target; rewrite Hn2; auto).
     assert (Hi2 : i < List.length h2) by (eapply nth_error_lt; eauto).
     assert (Hn3 : nth_error h3 i = Some (NAlias p tp (Some (RReal j)) true w)) by (apply nth_update_same; auto).
-    assert (Hj3 : nth_error h3 j = nth_error h2 j) by (apply nth_update_other; auto).
     assert (Hj2len : j < List.length h2) by (rewrite (R_length _ _ HR2); auto).
     assert (Hw3 : wf coll h3 = true).
     { eapply wf_update_alias; eauto. simpl. pose proof (wf_node _ _ _ _ Hw2 Hn2) as X. simpl in X.
       apply andb_true_iff in X. destruct X as [X _]. rewrite X. simpl. apply Nat.ltb_lt. auto. }
     assert (Hx3 : Rx i h h3).
     { eapply Rx_trans; [apply Rx_update|]. eapply Rx_trans; [apply Rx_of_R; exact HR2|]. apply Rx_update. }
-    destruct (finish coll h i p tp w h3 (Some (RReal j)) Hw3 Hn Hx3 Hn3) as ((FR & Fw) & Fn).
+    destruct (finish_R coll h i p tp w h3 (Some (RReal j)) Hw3 Hn Hx3 Hn3) as ((FR & Fw) & Fn).
     set (nf := NAlias p tp (Some (RReal j)) false w).
     assert (Ehf : set_passed h3 i false = update h2 i nf).
     { unfold set_passed. rewrite Hn3. unfold h3. apply update_update. }
@@ -1359,16 +1518,15 @@ Proof.
         + erewrite count_aliases_update; eauto.
       - red. exists p, tp, (RReal j), false, w. apply nth_update_same; auto. }
     assert (HL : exists L', L = S L') by (destruct L; [lia | eauto]). destruct HL as [L' HL].
-    simpl ref_is_alias. rewrite Hj3.
+    unfold tail. simpl ref_is_alias.
     destruct Hj2 as [(pj & c & ms & Hnj) | (pj & tpj & tj & paj & wj & Hnj)]; rewrite Hnj; simpl is_alias_node; cbv iota.
-    - apply Done. simpl. subst L. simpl. rewrite nth_update_other by auto. rewrite Hnj. auto.
+    - rewrite Eh3. apply Done. simpl. subst L. simpl. rewrite nth_update_other by auto. rewrite Hnj. auto.
     - pose proof (forallb_nth _ _ _ _ _ Hc2 Hnj) as Cj. simpl in Cj.
       destruct (chain_end L h2 tj [pj]) as [o|] eqn:Ej; try discriminate.
       assert (E0 : chain_end L h2 (RReal j) [] = Some o).
       { apply (chain_end_fuel (S L)). simpl. rewrite Hnj. simpl. auto.
         rewrite cnt_unseen_nil. simpl. lia. }
-      rewrite (final_target_pure rt L h3 (RReal j) [] o).
-      2:{ unfold h3. eapply chain_end_update_unres; eauto. }
+      rewrite (final_target_pure rt L h2 (RReal j) [] o E0). rewrite Eh3.
       apply Done. simpl.
       assert (Hq : forall k pk tpk tk pak wk, nth_error h2 k = Some (NAlias pk tpk (Some tk) pak wk) -> pk <> p).
       { intros k pk tpk tk pak wk Hk E. subst pk.
@@ -1399,7 +1557,7 @@ Qed.
 (* All-or-nothing, modulo the two known gaps (KnownGap_passthrough = direct false, KnownGap_preresolved =
    chains_complete false): resolve_target either resolves the alias and leaves every stored chain complete, or fails
    and leaves the heap exactly as it was. *)
-Theorem all_or_nothing_modulo_known : forall coll h i p tp pa w,
+Theorem failed_resolution_changes_nothing : forall coll h i p tp pa w,
   wf coll h = true -> direct coll h = true -> chains_complete h = true -> unique_paths h = true ->
   nth_error h i = Some (NAlias p tp None pa w) ->
   let h' := fst (resolve_top coll h i) in
@@ -1448,3 +1606,31 @@ Lemma hypotheses_satisfiable :
   snd (resolve_top w_plain_coll w_plain_heap 7) = Err (EARE "p.z") /\
   snd (resolve_aliases w_plain_coll w_plain_heap) = Ok (["p.z"], 2).
 Proof. pose proof plain_hypotheses. pose proof plain_outcomes. tauto. Qed.
+
+(* All-or-nothing, for every well-formed heap, modulo the one remaining known gap (KnownGap_preresolved =
+   targets_complete false: wildcard expansion has stored a link onto a chain that does not reach an object, C06-F3):
+   after resolve_target every stored link still leads to an object; a failed call leaves the alias unlinked. *)
+Theorem all_or_nothing_modulo_known : forall coll h i p tp pa w,
+  wf coll h = true -> targets_complete h = true -> nth_error h i = Some (NAlias p tp None pa w) ->
+  let h' := fst (resolve_top coll h i) in
+  let r := snd (resolve_top coll h i) in
+  targets_complete h' = true /\ (r = Ok tt -> resolved_in h' i) /\ (forall e, r = Err e -> link_of h' i = None).
+Proof.
+  intros coll h i p tp pa w Hw Ht Hn.
+  destruct (resolve_top_total coll h i p tp pa w Hw Hn) as (Hout & Herr & _ & _ & _ & Htc).
+  cbv zeta. split; auto. split; auto.
+  intros E. destruct Hout as [[_ Hr]|[[q Hq]|Hc]]; auto; rewrite E in *; discriminate.
+Qed.
+
+(* the same for a whole resolve_aliases() *)
+Theorem resolve_aliases_keeps_targets_complete : forall coll h,
+  wf coll h = true -> targets_complete h = true -> targets_complete (fst (resolve_aliases coll h)) = true.
+Proof. intros coll h Hw Ht. destruct (resolve_aliases_total coll h Hw) as (_ & _ & _ & _ & Htc). auto. Qed.
+
+Lemma former_witnesses_repaired :
+  snd (resolve_top w_through_coll w_through_heap 3) = Err (EARE "p.b.x") /\
+  link_of (fst (resolve_top w_through_coll w_through_heap 3)) 3 = None /\
+  targets_complete w_pre_heap = false /\
+  link_of (fst (resolve_top w_pre_coll w_pre_heap 6)) 6 = None /\
+  snd (resolve_aliases w_pre_coll (fst (resolve_aliases w_pre_coll w_pre_heap))) = snd (resolve_aliases w_pre_coll w_pre_heap).
+Proof. vm_compute. auto 10. Qed.
